@@ -7,6 +7,7 @@
    restarted while a CONNACK is applied); `Big [] [] v` is the invariant proper. -/
 import GV.Proofs.EngineInv
 import GV.Model.EngineWF
+import GV.Proofs.PacketIds
 namespace GV
 
 def vals (m : List (Nat × Nat)) : List Nat := m.map (·.2)
@@ -56,8 +57,6 @@ structure Big (S U : List Nat) (v : View) : Prop where
   pr : ∀ id o, v.ops.lookup id = some o → o.pubrel.isSome = true → pktDup o.packet = true ∨ id ∈ vals v.pendingPub ∨ id ∈ U
   h2 : ∀ id ∈ v.highQ, ∀ o, v.ops.lookup id = some o → isAckedPublish o.packet = true → o.pubrel.isSome = true
   pr2 : ∀ id ∈ v.highQ, ∀ o, v.ops.lookup id = some o → o.pubrel.isSome = true → id ∈ vals v.pendingPub
-  d1 : v.state = .disconnected →
-    v.current = none ∧ v.highQ = [] ∧ v.pendingPub = [] ∧ v.pendingNonPub = [] ∧ v.pendingWC = [] ∧ v.noTimeouts = true
   h1 : v.state = .pendingConnack →
     (∀ id ∈ v.highQ ++ v.pendingWC, ∀ o, v.ops.lookup id = some o → isConnectPacket o.packet = true) ∧
     (∀ id, v.current = some id → ∀ o, v.ops.lookup id = some o → isConnectPacket o.packet = true) ∧
@@ -70,8 +69,13 @@ structure Big (S U : List Nat) (v : View) : Prop where
   qb : (∀ id ∈ v.userQ ++ v.resubQ ++ v.highQ ++ v.pendingWC, id < v.nextOpId) ∧ ∀ id, v.current = some id → id < v.nextOpId
   s : v.state = .connected → sortedNat v.userQ = true ∧ sortedNat v.resubQ = true
 
+/-- a Disconnected engine has nothing in flight -/
+def D1 (v : View) : Prop :=
+  v.state = .disconnected →
+    v.current = none ∧ v.highQ = [] ∧ v.pendingPub = [] ∧ v.pendingNonPub = [] ∧ v.pendingWC = [] ∧ v.noTimeouts = true
+
 /-- the full invariant of an engine state -/
-def Inv (e : Engine) : Prop := e.core.Ok ∧ Big [] [] e.view
+def Inv (e : Engine) : Prop := e.core.Ok ∧ Big [] [] e.view ∧ D1 e.view
 
 /-! ### association-list facts -/
 
@@ -209,7 +213,7 @@ theorem Big.erase {S U : List Nat} {v : View} (h : Big S U v) {id : Nat} {o : Op
     · intro hh; rw [← h1]; exact hh
     · intro hh; rw [h2] at hh; cases hh
   refine { p1s := releaseFrom_sorted h.p1s _, p1r := ?_, p2 := ?_, p3 := ?_, p4 := ?_, n := ?_, tps := releaseFrom_sorted h.tps _,
-           tp := ?_, tns := releaseFrom_sorted h.tns _, tn := ?_, wc := ?_, loc := ?_, pr := ?_, h2 := ?_, pr2 := ?_, d1 := ?_,
+           tp := ?_, tns := releaseFrom_sorted h.tns _, tn := ?_, wc := ?_, loc := ?_, pr := ?_, h2 := ?_, pr2 := ?_,
            h1 := ?_, c1 := ?_, f := ?_, qb := h.qb, s := ?_ }
   · refine ⟨?_, h.p1r.2⟩
     intro x hx
@@ -278,11 +282,6 @@ theorem Big.erase {S U : List Nat} {v : View} (h : Big S U v) {id : Nat} {o : Op
   · intro i hi o' ho' hpr
     obtain ⟨hne, ho''⟩ := ha i o' ho'
     exact hcp i hne ⟨o', ho''⟩ (h.pr2 i hi o' ho'' hpr)
-  · intro hd
-    obtain ⟨a, b, c, d, e, f⟩ := h.d1 (hstate hd)
-    refine ⟨a, b, ?_, ?_, e, f⟩
-    · show releaseFrom v.pendingPub o.packetId = []; rw [c]; exact releaseFrom_nil _
-    · show releaseFrom v.pendingNonPub o.packetId = []; rw [d]; exact releaseFrom_nil _
   · intro hd
     obtain ⟨a, b, c, d, e⟩ := h.h1 (hstate2 hd)
     refine ⟨fun i hi o' ho' => a i hi o' (ha i o' ho').2, fun i hi o' ho' => b i hi o' (ha i o' ho').2, ?_, ?_, e⟩
@@ -434,7 +433,7 @@ theorem Big.replace {S U : List Nat} {v : View} (h : Big S U v) {id : Nat} {o o'
     · rename_i hi; cases hx; exact .inl ⟨hi, rfl⟩
     · rename_i hi; exact .inr ⟨hi, hx⟩
   refine { p1s := h.p1s, p1r := h.p1r, p2 := ?_, p3 := ?_, p4 := ?_, n := ?_, tps := h.tps, tp := ?_, tns := h.tns, tn := ?_,
-           wc := ?_, loc := ?_, pr := ?_, h2 := ?_, pr2 := ?_, d1 := h.d1, h1 := ?_, c1 := ?_, f := ?_, qb := h.qb, s := h.s }
+           wc := ?_, loc := ?_, pr := ?_, h2 := ?_, pr2 := ?_, h1 := ?_, c1 := ?_, f := ?_, qb := h.qb, s := h.s }
   · intro pid i hi
     obtain ⟨x, hx, hp⟩ := h.p2 pid i hi
     by_cases hii : i = id
@@ -754,7 +753,6 @@ theorem Big.setHighQ {S U T : List Nat} {v : View} (h : Big S U v) (hq : List Na
     (hqb : ∀ i ∈ hq, i < v.nextOpId)
     (hh2 : ∀ i ∈ hq, ∀ o, v.ops.lookup i = some o → isAckedPublish o.packet = true → o.pubrel.isSome = true)
     (hpr2 : ∀ i ∈ hq, ∀ o, v.ops.lookup i = some o → o.pubrel.isSome = true → i ∈ vals v.pendingPub)
-    (hd1 : v.state = .disconnected → hq = [])
     (hh1 : v.state = .pendingConnack → ∀ i ∈ hq, ∀ o, v.ops.lookup i = some o → isConnectPacket o.packet = true) :
     Big T U { v with highQ := hq } := by
   have hl : ∀ i x, v.ops.lookup i = some x → ({ v with highQ := hq } : View).Located i ∨ i ∈ T := by
@@ -777,11 +775,6 @@ theorem Big.setHighQ {S U T : List Nat} {v : View} (h : Big S U v) (hq : List Na
     · exact h.qb.1 i (by simp only [List.mem_append]; exact .inl (.inl (.inr a)))
     · exact hqb i a
     · exact h.qb.1 i (by simp only [List.mem_append]; exact .inr a)
-  have hd : v.state = .disconnected →
-      v.current = none ∧ hq = [] ∧ v.pendingPub = [] ∧ v.pendingNonPub = [] ∧ v.pendingWC = [] ∧ v.noTimeouts = true := by
-    intro hd
-    obtain ⟨a, _, c, d, e, f⟩ := h.d1 hd
-    exact ⟨a, hd1 hd, c, d, e, f⟩
   have hh : v.state = .pendingConnack →
       (∀ id ∈ hq ++ v.pendingWC, ∀ o, v.ops.lookup id = some o → isConnectPacket o.packet = true) ∧
       (∀ id, v.current = some id → ∀ o, v.ops.lookup id = some o → isConnectPacket o.packet = true) ∧
@@ -793,12 +786,11 @@ theorem Big.setHighQ {S U T : List Nat} {v : View} (h : Big S U v) (hq : List Na
     rcases List.mem_append.mp hi with x | x
     · exact hh1 hd i x o ho
     · exact a i (List.mem_append_right _ x) o ho
-  exact { h with loc := hl, qb := ⟨hqq, h.qb.2⟩, h2 := hh2, pr2 := hpr2, d1 := hd, h1 := hh }
+  exact { h with loc := hl, qb := ⟨hqq, h.qb.2⟩, h2 := hh2, pr2 := hpr2, h1 := hh }
 
 theorem Big.setCurrent {S U T : List Nat} {v : View} (h : Big S U v) (cur : Option Nat)
     (hloc : ∀ i, v.current = some i → cur = some i ∨ i ∈ T) (hS : ∀ i ∈ S, cur = some i ∨ i ∈ T)
     (hqb : ∀ i, cur = some i → i < v.nextOpId)
-    (hd1 : v.state = .disconnected → cur = none)
     (hh1 : v.state = .pendingConnack → ∀ i, cur = some i → ∀ o, v.ops.lookup i = some o → isConnectPacket o.packet = true)
     (hc1 : v.state = .connected → ∀ i, cur = some i → ∀ o, v.ops.lookup i = some o → needsPacketId o.packet = true → o.packetId.isSome = true)
     (hf : v.state = .connected → ∀ rm, v.rm = some rm → ∀ i, cur = some i → ∀ o, v.ops.lookup i = some o → isAckedPublish o.packet = true →
@@ -816,11 +808,6 @@ theorem Big.setCurrent {S U T : List Nat} {v : View} (h : Big S U v) (cur : Opti
       · exact .inl (.inr (.inr (.inr (.inr (.inr (.inl a))))))
       · exact .inl (.inr (.inr (.inr (.inr (.inr (.inr a))))))
     · exact (hS i a).elim (fun b => .inl (.inr (.inr (.inr (.inl b))))) .inr
-  have hd : v.state = .disconnected →
-      cur = none ∧ v.highQ = [] ∧ v.pendingPub = [] ∧ v.pendingNonPub = [] ∧ v.pendingWC = [] ∧ v.noTimeouts = true := by
-    intro hd
-    obtain ⟨_, b, c, d, e, f⟩ := h.d1 hd
-    exact ⟨hd1 hd, b, c, d, e, f⟩
   have hh : v.state = .pendingConnack →
       (∀ id ∈ v.highQ ++ v.pendingWC, ∀ o, v.ops.lookup id = some o → isConnectPacket o.packet = true) ∧
       (∀ id, cur = some id → ∀ o, v.ops.lookup id = some o → isConnectPacket o.packet = true) ∧
@@ -834,13 +821,12 @@ theorem Big.setCurrent {S U T : List Nat} {v : View} (h : Big S U v) (cur : Opti
     intro hd
     obtain ⟨rm, hrm, hlen, _⟩ := h.f hd
     exact ⟨rm, hrm, hlen, hf hd rm hrm⟩
-  exact { h with loc := hl, qb := ⟨h.qb.1, hqb⟩, d1 := hd, h1 := hh, c1 := hc1, f := hff }
+  exact { h with loc := hl, qb := ⟨h.qb.1, hqb⟩, h1 := hh, c1 := hc1, f := hff }
 
 theorem Big.setPendingWC {S U T : List Nat} {v : View} (h : Big S U v) (wcq : List Nat)
     (hloc : ∀ i, i ∈ v.pendingWC → i ∈ wcq ∨ i ∈ T) (hS : ∀ i ∈ S, i ∈ wcq ∨ i ∈ T)
     (hqb : ∀ i ∈ wcq, i < v.nextOpId)
     (hwc : ∀ i ∈ wcq, ∀ o, v.ops.lookup i = some o → needsPacketId o.packet = false)
-    (hd1 : v.state = .disconnected → wcq = [])
     (hh1 : v.state = .pendingConnack → ∀ i ∈ wcq, ∀ o, v.ops.lookup i = some o → isConnectPacket o.packet = true) :
     Big T U { v with pendingWC := wcq } := by
   have hl : ∀ i x, v.ops.lookup i = some x → ({ v with pendingWC := wcq } : View).Located i ∨ i ∈ T := by
@@ -863,11 +849,6 @@ theorem Big.setPendingWC {S U T : List Nat} {v : View} (h : Big S U v) (wcq : Li
     · exact h.qb.1 i (by simp only [List.mem_append]; exact .inl (.inl (.inr a)))
     · exact h.qb.1 i (by simp only [List.mem_append]; exact .inl (.inr a))
     · exact hqb i a
-  have hd : v.state = .disconnected →
-      v.current = none ∧ v.highQ = [] ∧ v.pendingPub = [] ∧ v.pendingNonPub = [] ∧ wcq = [] ∧ v.noTimeouts = true := by
-    intro hd
-    obtain ⟨a, b, c, d, _, f⟩ := h.d1 hd
-    exact ⟨a, b, c, d, hd1 hd, f⟩
   have hh : v.state = .pendingConnack →
       (∀ id ∈ v.highQ ++ wcq, ∀ o, v.ops.lookup id = some o → isConnectPacket o.packet = true) ∧
       (∀ id, v.current = some id → ∀ o, v.ops.lookup id = some o → isConnectPacket o.packet = true) ∧
@@ -879,7 +860,7 @@ theorem Big.setPendingWC {S U T : List Nat} {v : View} (h : Big S U v) (wcq : Li
     rcases List.mem_append.mp hi with x | x
     · exact a i (List.mem_append_left _ x) o ho
     · exact hh1 hd i x o ho
-  exact { h with loc := hl, qb := ⟨hqq, h.qb.2⟩, wc := hwc, d1 := hd, h1 := hh }
+  exact { h with loc := hl, qb := ⟨hqq, h.qb.2⟩, wc := hwc, h1 := hh }
 
 /-! ### user events -/
 
@@ -905,13 +886,13 @@ theorem big_enqueue_user_back {S U : List Nat} (e1 : Engine) (id : Nat) (h : Big
 /-- queueing a freshly created internal operation in the high-priority queue (front or back) -/
 theorem big_enqueue_high {S U : List Nat} (e1 : Engine) (id : Nat) (o : Op) (front : Bool) (h : Big (id :: S) U e1.view)
     (ho : e1.ops.lookup id = some o) (hid : id < e1.nextOpId)
-    (hnd : e1.state ≠ .disconnected) (hpc : e1.state = .pendingConnack → isConnectPacket o.packet = true)
+    (hpc : e1.state = .pendingConnack → isConnectPacket o.packet = true)
     (hnp : isAckedPublish o.packet = false) (hpr : o.pubrel = none) :
     Big S U ({ e1 with highQ := if front then id :: e1.highQ else e1.highQ ++ [id] } : Engine).view := by
   show Big S U { e1.view with highQ := if front then id :: e1.highQ else e1.highQ ++ [id] }
   have hmem : ∀ i, i ∈ (if front then id :: e1.highQ else e1.highQ ++ [id]) ↔ i = id ∨ i ∈ e1.highQ := by
     intro i; cases front <;> simp [or_comm]
-  refine h.setHighQ _ (fun i hi => .inl ((hmem i).mpr (.inr hi))) ?_ ?_ ?_ ?_ ?_ ?_
+  refine h.setHighQ _ (fun i hi => .inl ((hmem i).mpr (.inr hi))) ?_ ?_ ?_ ?_ ?_
   · intro i hi
     rcases List.mem_cons.mp hi with rfl | hi'
     · exact .inl ((hmem _).mpr (.inl rfl))
@@ -930,7 +911,6 @@ theorem big_enqueue_high {S U : List Nat} (e1 : Engine) (id : Nat) (o : Op) (fro
     · have : e1.view.ops.lookup i = some o := ho
       rw [this] at hx; cases hx; rw [hpr] at hk; cases hk
     · exact h.pr2 i a x hx hk
-  · intro hd; exact absurd hd hnd
   · intro hd i hi x hx
     rcases (hmem i).mp hi with rfl | a
     · have : e1.view.ops.lookup i = some o := ho
@@ -986,7 +966,7 @@ theorem submit_stp {S U : List Nat} (e : Engine) (p : Packet) (user : Option (Na
           simp [passesPolicy_disconnect] at hp
       simp only []
       exact big_enqueue_high (e.createOp (.disconnect d) user).1 e.nextOpId _ front h1 f6 (by rw [f2]; exact Nat.lt_succ_self _)
-        (by rw [f5, hconn]; decide) (by rw [f5, hconn]; intro hh; cases hh) rfl rfl
+        (by rw [f5, hconn]; intro hh; cases hh) rfl rfl
 
 theorem handleUser_stp {S U : List Nat} (e : Engine) (u : UserEvent) :
     PresAdd u.idx e (e.handleUser u).1 ∧ (e.core.Ok → Big S U e.view → Big S U (e.handleUser u).1.view) := by
@@ -1068,5 +1048,1398 @@ theorem clearQos2_stp {S U : List Nat} (e : Engine) (id : Nat)
       (by intro hi hk; have := hq hi o ho; rw [this] at hk; cases hk)
       (by intro hi hp; cases hp)
     exact this
+
+/-! ### packet ids: allocation and unbinding -/
+
+theorem withPacketId_class (p : Packet) (n : Nat) :
+    needsPacketId (withPacketId p n) = needsPacketId p ∧ isAckedPublish (withPacketId p n) = isAckedPublish p ∧
+    isSubOrUnsub (withPacketId p n) = isSubOrUnsub p ∧ isConnectPacket (withPacketId p n) = isConnectPacket p ∧
+    pktDup (withPacketId p n) = pktDup p ∧ (needsPacketId p = true → pktPid (withPacketId p n) = n) := by
+  cases p <;> simp [withPacketId, needsPacketId, isAckedPublish, isSubOrUnsub, isConnectPacket, pktDup, pktPid]
+
+/-- binding a free packet id to an operation that needs one -/
+theorem Big.bind {S U : List Nat} {v : View} (h : Big S U v) {id pid : Nat} {o : Op} (ho : v.ops.lookup id = some o)
+    (hnone : o.packetId = none) (hneed : needsPacketId o.packet = true) (hfree : v.allocated.lookup pid = none)
+    (hr : 1 ≤ pid ∧ pid ≤ 65535) (np : Nat) (hnp : 1 ≤ np ∧ np ≤ 65535) (hU : U = []) :
+    Big S U { v with ops := mapInsert v.ops id { o with packetId := some pid, packet := withPacketId o.packet pid },
+                     allocated := mapInsert v.allocated pid id, nextPacketId := np } := by
+  have hc := withPacketId_class o.packet pid
+  have hl : ∀ i x, (mapInsert v.ops id ({ o with packetId := some pid, packet := withPacketId o.packet pid } : Op)).lookup i = some x →
+      (i = id ∧ x = { o with packetId := some pid, packet := withPacketId o.packet pid }) ∨ (i ≠ id ∧ v.ops.lookup i = some x) := by
+    intro i x hx
+    rw [lookup_mapInsert] at hx
+    split at hx
+    · rename_i hi; cases hx; exact .inl ⟨hi, rfl⟩
+    · rename_i hi; exact .inr ⟨hi, hx⟩
+  have hkeep : ∀ i x, i ≠ id → v.ops.lookup i = some x →
+      (mapInsert v.ops id ({ o with packetId := some pid, packet := withPacketId o.packet pid } : Op)).lookup i = some x := by
+    intro i x hne hx; rw [lookup_mapInsert_ne _ _ _ _ hne]; exact hx
+  -- nobody else holds `pid`
+  have hother : ∀ i x, v.ops.lookup i = some x → x.packetId = some pid → False := by
+    intro i x hx hp
+    rcases h.p3 i x pid hx hp with h1 | h1
+    · rw [hfree] at h1; cases h1
+    · rw [hU] at h1; cases h1.1
+  -- entries of the pending tables never name `id` (it held no packet id)
+  have hnp1 : ∀ q i, v.pendingPub.lookup q = some i → i ≠ id := by
+    intro q i hq hi
+    obtain ⟨x, hx, hp, _⟩ := h.tp q i hq
+    subst hi; rw [ho] at hx; cases hx; rw [hnone] at hp; cases hp
+  have hnp2 : ∀ q i, v.pendingNonPub.lookup q = some i → i ≠ id := by
+    intro q i hq hi
+    obtain ⟨x, hx, hp, _⟩ := h.tn q i hq
+    subst hi; rw [ho] at hx; cases hx; rw [hnone] at hp; cases hp
+  exact { h with
+    p1s := h.p1s.mapInsert _ _
+    p1r := ⟨fun x hx => (mem_mapInsert hx).elim (fun e => by rw [e]; exact hr) (h.p1r.1 x), hnp⟩
+    p2 := fun q i hq => by
+      show ∃ x, (mapInsert v.ops id _).lookup i = some x ∧ x.packetId = some q
+      have hq' : (mapInsert v.allocated pid id).lookup q = some i := hq
+      rw [lookup_mapInsert] at hq'
+      split at hq'
+      · rename_i hqq; cases hq'; subst hqq
+        exact ⟨_, lookup_mapInsert_self _ _ _, rfl⟩
+      · obtain ⟨x, hx, hp⟩ := h.p2 q i hq'
+        have : i ≠ id := by
+          intro hh; subst hh; rw [ho] at hx; cases hx; rw [hnone] at hp; cases hp
+        exact ⟨x, hkeep i x this hx, hp⟩
+    p3 := fun i x q hx hp => by
+      left
+      show (mapInsert v.allocated pid id).lookup q = some i
+      rcases hl i x hx with ⟨rfl, rfl⟩ | ⟨hne, hx'⟩
+      · cases hp; exact lookup_mapInsert_self _ _ _
+      · have hq : q ≠ pid := fun hh => hother i x hx' (hh ▸ hp)
+        rw [lookup_mapInsert_ne _ _ _ _ hq]
+        rcases h.p3 i x q hx' hp with h1 | h1
+        · exact h1
+        · rw [hU] at h1; cases h1.1
+    p4 := fun i x q hx hp => by
+      rcases hl i x hx with ⟨rfl, rfl⟩ | ⟨_, hx'⟩
+      · cases hp; exact hc.2.2.2.2.2 hneed
+      · exact h.p4 i x q hx' hp
+    n := fun i x hx hp => by
+      rcases hl i x hx with ⟨rfl, rfl⟩ | ⟨_, hx'⟩
+      · show needsPacketId (withPacketId o.packet pid) = true; rw [hc.1]; exact hneed
+      · exact h.n i x hx' hp
+    tp := fun q i hq => by
+      obtain ⟨x, hx, hp⟩ := h.tp q i hq
+      exact ⟨x, hkeep i x (hnp1 q i hq) hx, hp⟩
+    tn := fun q i hq => by
+      obtain ⟨x, hx, hp⟩ := h.tn q i hq
+      exact ⟨x, hkeep i x (hnp2 q i hq) hx, hp⟩
+    wc := fun i hi x hx => by
+      rcases hl i x hx with ⟨rfl, rfl⟩ | ⟨_, hx'⟩
+      · have := h.wc i hi o ho; rw [hneed] at this; cases this
+      · exact h.wc i hi x hx'
+    loc := fun i x hx => by
+      rcases hl i x hx with ⟨rfl, rfl⟩ | ⟨_, hx'⟩
+      · exact h.loc i o ho
+      · exact h.loc i x hx'
+    pr := fun i x hx hp => by
+      rcases hl i x hx with ⟨rfl, rfl⟩ | ⟨_, hx'⟩
+      · show pktDup (withPacketId o.packet pid) = true ∨ _
+        rw [hc.2.2.2.2.1]; exact h.pr i o ho hp
+      · exact h.pr i x hx' hp
+    h2 := fun i hi x hx hk => by
+      rcases hl i x hx with ⟨rfl, rfl⟩ | ⟨_, hx'⟩
+      · exact h.h2 i hi o ho (by rw [← hc.2.1]; exact hk)
+      · exact h.h2 i hi x hx' hk
+    pr2 := fun i hi x hx hk => by
+      rcases hl i x hx with ⟨rfl, rfl⟩ | ⟨_, hx'⟩
+      · exact h.pr2 i hi o ho hk
+      · exact h.pr2 i hi x hx' hk
+    h1 := fun hd => by
+      obtain ⟨a, b, c⟩ := h.h1 hd
+      refine ⟨fun i hi x hx => ?_, fun i hi x hx => ?_, c⟩
+      · rcases hl i x hx with ⟨rfl, rfl⟩ | ⟨_, hx'⟩
+        · show isConnectPacket (withPacketId o.packet pid) = true; rw [hc.2.2.2.1]; exact a i hi o ho
+        · exact a i hi x hx'
+      · rcases hl i x hx with ⟨rfl, rfl⟩ | ⟨_, hx'⟩
+        · show isConnectPacket (withPacketId o.packet pid) = true; rw [hc.2.2.2.1]; exact b i hi o ho
+        · exact b i hi x hx'
+    c1 := fun hd i hi x hx hk => by
+      rcases hl i x hx with ⟨rfl, rfl⟩ | ⟨_, hx'⟩
+      · rfl
+      · exact h.c1 hd i hi x hx' hk
+    f := fun hd => by
+      obtain ⟨rm, hrm, hlen, hcur⟩ := h.f hd
+      refine ⟨rm, hrm, hlen, fun i hi x hx hk => ?_⟩
+      rcases hl i x hx with ⟨rfl, rfl⟩ | ⟨_, hx'⟩
+      · exact hcur i hi o ho (by rw [← hc.2.1]; exact hk)
+      · exact hcur i hi x hx' hk }
+
+/-- `acquire_packet_id_for_operation` (normal operation: no exemptions) -/
+theorem acquireIdFor_stp {S : List Nat} (e : Engine) (id : Nat) : Stp S [] S [] e (e.acquireIdFor id).1 := by
+  refine ⟨acquireIdFor_pres e id, ?_⟩
+  intro hok h
+  unfold Engine.acquireIdFor
+  cases ho : e.op? id with
+  | none => exact h
+  | some o =>
+    have hid := hok.id_eq (show e.core.ops.lookup id = some o from ho)
+    subst hid
+    simp only []
+    split
+    · exact h
+    · rename_i hnone
+      split
+      · exact h
+      · rename_i hneed
+        have hnone' : o.packetId = none := by
+          cases hp : o.packetId with
+          | none => rfl
+          | some x => rw [hp] at hnone; simp at hnone
+        have hneed' : needsPacketId o.packet = true := by simpa using hneed
+        have hr : inRange e.nextPacketId := h.p1r.2
+        have hs := acquireLoop_sound e.allocated e.nextPacketId 65536 e.nextPacketId e.nextPacketId hr hr
+        unfold Engine.acquireFreeId
+        generalize hloop : acquireLoop e.allocated e.nextPacketId 65536 e.nextPacketId e.nextPacketId = r at hs
+        obtain ⟨found, next⟩ := r
+        cases found with
+        | none =>
+          simp only []
+          exact { h with p1r := ⟨h.p1r.1, hs.1⟩ }
+        | some pid =>
+          simp only []
+          have hp := hs.2 pid rfl
+          exact h.bind (show e.view.ops.lookup o.id = some o from ho) hnone' hneed' hp.2 hp.1 next hs.1 rfl
+
+/-- `unbind_operation_packet_id` of an operation that is in no pending table -/
+theorem unbind_stp {S U : List Nat} (e : Engine) (id : Nat)
+    (hnt : id ∉ vals e.pendingPub ∧ id ∉ vals e.pendingNonPub)
+    (hcur : e.state = .connected → e.current = some id → ∀ o, e.op? id = some o → needsPacketId o.packet = false) :
+    Stp S U S U e (e.unbind id) := by
+  refine ⟨unbind_pres e id, ?_⟩
+  intro hok h
+  unfold Engine.unbind
+  cases ho : e.op? id with
+  | none => exact h
+  | some o =>
+    have hid := hok.id_eq (show e.core.ops.lookup id = some o from ho)
+    subst hid
+    simp only []
+    cases hp : o.packetId with
+    | none => exact h
+    | some pid =>
+      simp only []
+      have ho' : e.view.ops.lookup o.id = some o := ho
+      have hc := withPacketId_class o.packet 0
+      show Big S U { e.view with allocated := mapErase e.allocated pid,
+                                 ops := mapInsert e.ops o.id { o with packetId := none, packet := withPacketId o.packet 0 } }
+      have hl : ∀ i x, (mapInsert e.ops o.id ({ o with packetId := none, packet := withPacketId o.packet 0 } : Op)).lookup i = some x →
+          (i = o.id ∧ x = { o with packetId := none, packet := withPacketId o.packet 0 }) ∨ (i ≠ o.id ∧ e.view.ops.lookup i = some x) := by
+        intro i x hx
+        rw [lookup_mapInsert] at hx
+        split at hx
+        · rename_i hi; cases hx; exact .inl ⟨hi, rfl⟩
+        · rename_i hi; exact .inr ⟨hi, hx⟩
+      have hkeep : ∀ i x, i ≠ o.id → e.view.ops.lookup i = some x →
+          (mapInsert e.ops o.id ({ o with packetId := none, packet := withPacketId o.packet 0 } : Op)).lookup i = some x := by
+        intro i x hne hx; rw [lookup_mapInsert_ne _ _ _ _ hne]; exact hx
+      have hnp1 : ∀ q i, e.view.pendingPub.lookup q = some i → i ≠ o.id := fun q i hq hi => hnt.1 (hi ▸ mem_vals_of_lookup hq)
+      have hnp2 : ∀ q i, e.view.pendingNonPub.lookup q = some i → i ≠ o.id := fun q i hq hi => hnt.2 (hi ▸ mem_vals_of_lookup hq)
+      exact { h with
+        p1s := h.p1s.mapErase _
+        p1r := ⟨fun x hx => h.p1r.1 x (mem_mapErase.mp hx).1, h.p1r.2⟩
+        p2 := fun q i hq => by
+          obtain ⟨hne, hq'⟩ := lookup_mapErase_some (show (mapErase e.allocated pid).lookup q = some i from hq)
+          obtain ⟨x, hx, hpx⟩ := h.p2 q i hq'
+          have : i ≠ o.id := by
+            intro hh; subst hh; rw [ho'] at hx; cases hx; rw [hp] at hpx; cases hpx; exact hne rfl
+          exact ⟨x, hkeep i x this hx, hpx⟩
+        p3 := fun i x q hx hpx => by
+          rcases hl i x hx with ⟨rfl, rfl⟩ | ⟨hne, hx'⟩
+          · cases hpx
+          · rcases h.p3 i x q hx' hpx with h1 | h1
+            · left
+              show (mapErase e.allocated pid).lookup q = some i
+              have hq : q ≠ pid := by
+                intro hh; subst hh
+                rcases h.p3 o.id o q ho' hp with h2 | h2
+                · rw [h1] at h2; cases h2; exact hne rfl
+                · have : e.view.allocated = [] := h2.2.1
+                  rw [this] at h1; cases h1
+              rw [lookup_mapErase_ne _ _ _ hq]; exact h1
+            · right
+              refine ⟨h1.1, ?_, h1.2.2⟩
+              show mapErase e.allocated pid = []
+              have : e.allocated = [] := h1.2.1
+              rw [this]; rfl
+        p4 := fun i x q hx hpx => by
+          rcases hl i x hx with ⟨rfl, rfl⟩ | ⟨_, hx'⟩
+          · cases hpx
+          · exact h.p4 i x q hx' hpx
+        n := fun i x hx hpx => by
+          rcases hl i x hx with ⟨rfl, rfl⟩ | ⟨_, hx'⟩
+          · cases hpx
+          · exact h.n i x hx' hpx
+        tp := fun q i hq => by
+          obtain ⟨x, hx, hpx⟩ := h.tp q i hq
+          exact ⟨x, hkeep i x (hnp1 q i hq) hx, hpx⟩
+        tn := fun q i hq => by
+          obtain ⟨x, hx, hpx⟩ := h.tn q i hq
+          exact ⟨x, hkeep i x (hnp2 q i hq) hx, hpx⟩
+        wc := fun i hi x hx => by
+          rcases hl i x hx with ⟨rfl, rfl⟩ | ⟨_, hx'⟩
+          · show needsPacketId (withPacketId o.packet 0) = false; rw [hc.1]; exact h.wc _ hi o ho'
+          · exact h.wc i hi x hx'
+        loc := fun i x hx => by
+          rcases hl i x hx with ⟨rfl, rfl⟩ | ⟨_, hx'⟩
+          · exact h.loc _ o ho'
+          · exact h.loc i x hx'
+        pr := fun i x hx hpx => by
+          rcases hl i x hx with ⟨rfl, rfl⟩ | ⟨_, hx'⟩
+          · show pktDup (withPacketId o.packet 0) = true ∨ _
+            rw [hc.2.2.2.2.1]; exact h.pr _ o ho' hpx
+          · exact h.pr i x hx' hpx
+        h2 := fun i hi x hx hk => by
+          rcases hl i x hx with ⟨rfl, rfl⟩ | ⟨_, hx'⟩
+          · exact h.h2 _ hi o ho' (by rw [← hc.2.1]; exact hk)
+          · exact h.h2 i hi x hx' hk
+        pr2 := fun i hi x hx hk => by
+          rcases hl i x hx with ⟨rfl, rfl⟩ | ⟨_, hx'⟩
+          · exact h.pr2 _ hi o ho' hk
+          · exact h.pr2 i hi x hx' hk
+        h1 := fun hd => by
+          obtain ⟨a, b, c⟩ := h.h1 hd
+          refine ⟨fun i hi x hx => ?_, fun i hi x hx => ?_, c⟩
+          · rcases hl i x hx with ⟨rfl, rfl⟩ | ⟨_, hx'⟩
+            · show isConnectPacket (withPacketId o.packet 0) = true; rw [hc.2.2.2.1]; exact a _ hi o ho'
+            · exact a i hi x hx'
+          · rcases hl i x hx with ⟨rfl, rfl⟩ | ⟨_, hx'⟩
+            · show isConnectPacket (withPacketId o.packet 0) = true; rw [hc.2.2.2.1]; exact b _ hi o ho'
+            · exact b i hi x hx'
+        c1 := fun hd i hi x hx hk => by
+          rcases hl i x hx with ⟨rfl, rfl⟩ | ⟨_, hx'⟩
+          · have := hcur hd hi o ho
+            have hk' : needsPacketId o.packet = true := by rw [← hc.1]; exact hk
+            rw [this] at hk'; cases hk'
+          · exact h.c1 hd i hi x hx' hk
+        f := fun hd => by
+          obtain ⟨rm, hrm, hlen, hcu⟩ := h.f hd
+          refine ⟨rm, hrm, hlen, fun i hi x hx hk => ?_⟩
+          rcases hl i x hx with ⟨rfl, rfl⟩ | ⟨_, hx'⟩
+          · exact hcu _ hi o ho' (by rw [← hc.2.1]; exact hk)
+          · exact hcu i hi x hx' hk }
+
+/-! ### rewriting marks on every operation (slow start, interruption counts) -/
+
+theorem Big.mapOps {S U : List Nat} {v : View} (h : Big S U v) (g : Nat → Op → Op)
+    (hg : ∀ id o, (g id o).packet = o.packet ∧ (g id o).packetId = o.packetId ∧ (g id o).pubrel = o.pubrel) :
+    Big S U { v with ops := v.ops.map (fun x => (x.1, g x.1 x.2)) } := by
+  have hl : ∀ i x, (v.ops.map (fun x => (x.1, g x.1 x.2))).lookup i = some x → ∃ y, v.ops.lookup i = some y ∧ x = g i y := by
+    intro i x hx
+    rw [lookup_mapOps] at hx
+    cases hy : v.ops.lookup i with
+    | none => rw [hy] at hx; cases hx
+    | some y => rw [hy] at hx; simp only [Option.map_some, Option.some.injEq] at hx; exact ⟨y, rfl, hx.symm⟩
+  have hk : ∀ i y, v.ops.lookup i = some y → (v.ops.map (fun x => (x.1, g x.1 x.2))).lookup i = some (g i y) := by
+    intro i y hy; rw [lookup_mapOps, hy]; rfl
+  exact { h with
+    p2 := fun q i hq => by
+      obtain ⟨x, hx, hp⟩ := h.p2 q i hq
+      exact ⟨g i x, hk i x hx, by rw [(hg i x).2.1]; exact hp⟩
+    p3 := fun i x q hx hp => by
+      obtain ⟨y, hy, rfl⟩ := hl i x hx
+      exact h.p3 i y q hy (by rw [← (hg i y).2.1]; exact hp)
+    p4 := fun i x q hx hp => by
+      obtain ⟨y, hy, rfl⟩ := hl i x hx
+      rw [(hg i y).1]; exact h.p4 i y q hy (by rw [← (hg i y).2.1]; exact hp)
+    n := fun i x hx hp => by
+      obtain ⟨y, hy, rfl⟩ := hl i x hx
+      rw [(hg i y).1]; exact h.n i y hy (by rw [← (hg i y).2.1]; exact hp)
+    tp := fun q i hq => by
+      obtain ⟨x, hx, hp, hk'⟩ := h.tp q i hq
+      exact ⟨g i x, hk i x hx, by rw [(hg i x).2.1]; exact hp, by rw [(hg i x).1]; exact hk'⟩
+    tn := fun q i hq => by
+      obtain ⟨x, hx, hp, hk'⟩ := h.tn q i hq
+      exact ⟨g i x, hk i x hx, by rw [(hg i x).2.1]; exact hp, by rw [(hg i x).1]; exact hk'⟩
+    wc := fun i hi x hx => by
+      obtain ⟨y, hy, rfl⟩ := hl i x hx
+      rw [(hg i y).1]; exact h.wc i hi y hy
+    loc := fun i x hx => by
+      obtain ⟨y, hy, rfl⟩ := hl i x hx
+      exact h.loc i y hy
+    pr := fun i x hx hp => by
+      obtain ⟨y, hy, rfl⟩ := hl i x hx
+      rw [(hg i y).1]; exact h.pr i y hy (by rw [← (hg i y).2.2]; exact hp)
+    h2 := fun i hi x hx hk' => by
+      obtain ⟨y, hy, rfl⟩ := hl i x hx
+      rw [(hg i y).2.2]; exact h.h2 i hi y hy (by rw [← (hg i y).1]; exact hk')
+    pr2 := fun i hi x hx hp => by
+      obtain ⟨y, hy, rfl⟩ := hl i x hx
+      exact h.pr2 i hi y hy (by rw [← (hg i y).2.2]; exact hp)
+    h1 := fun hd => by
+      obtain ⟨a, b, c⟩ := h.h1 hd
+      refine ⟨fun i hi x hx => ?_, fun i hi x hx => ?_, c⟩
+      · obtain ⟨y, hy, rfl⟩ := hl i x hx
+        rw [(hg i y).1]; exact a i hi y hy
+      · obtain ⟨y, hy, rfl⟩ := hl i x hx
+        rw [(hg i y).1]; exact b i hi y hy
+    c1 := fun hd i hi x hx hk' => by
+      obtain ⟨y, hy, rfl⟩ := hl i x hx
+      rw [(hg i y).2.1]; exact h.c1 hd i hi y hy (by rw [← (hg i y).1]; exact hk')
+    f := fun hd => by
+      obtain ⟨rm, hrm, hlen, hcu⟩ := h.f hd
+      refine ⟨rm, hrm, hlen, fun i hi x hx hk' => ?_⟩
+      obtain ⟨y, hy, rfl⟩ := hl i x hx
+      exact hcu i hi y hy (by rw [← (hg i y).1]; exact hk') }
+
+theorem slowStartInit_stp {S U : List Nat} (e e2 : Engine) (hi : e.slowStartInit = some e2) (hs : e.state ≠ .connected) : Stp S U S U e e2 := by
+  refine ⟨slowStartInit_pres e e2 hi hs, ?_⟩
+  intro _ h
+  unfold Engine.slowStartInit at hi
+  split at hi
+  · cases hi; exact h
+  · simp only [] at hi
+    split at hi
+    · cases hi
+      exact h.mapOps (fun id o => if ((e.pendingNonPub.map (·.2)) ++ (e.pendingPub.map (·.2))).contains id then { o with slowStart := 1 } else o)
+        (by intro id o; split <;> exact ⟨rfl, rfl, rfl⟩)
+    · cases hi
+
+theorem updateInterrupted_stp {S U : List Nat} (e e2 : Engine) (hi : e.updateInterrupted = some e2) : Stp S U S U e e2 := by
+  refine ⟨updateInterrupted_pres e e2 hi, ?_⟩
+  intro _ h
+  unfold Engine.updateInterrupted at hi
+  split at hi
+  · cases hi; exact h
+  · simp only [] at hi
+    split at hi
+    · cases hi
+      exact h.mapOps (fun id o => { o with interruptions := o.interruptions + ((e.pendingNonPub.map (·.2)) ++ (e.pendingPub.map (·.2))).count id })
+        (by intro id o; exact ⟨rfl, rfl, rfl⟩)
+    · cases hi
+
+/-! ### state changes -/
+
+theorem Big.setState {S U : List Nat} {v : View} (h : Big S U v) (s' : PState)
+    (hh1 : s' = .pendingConnack →
+      (∀ id ∈ v.highQ ++ v.pendingWC, ∀ o, v.ops.lookup id = some o → isConnectPacket o.packet = true) ∧
+      (∀ id, v.current = some id → ∀ o, v.ops.lookup id = some o → isConnectPacket o.packet = true) ∧
+      v.pendingPub = [] ∧ v.pendingNonPub = [] ∧ v.noTimeouts = true)
+    (hc1 : s' = .connected → ∀ id, v.current = some id → ∀ o, v.ops.lookup id = some o → needsPacketId o.packet = true → o.packetId.isSome = true)
+    (hf : s' = .connected → ∃ rm, v.rm = some rm ∧ v.pendingPub.length ≤ rm ∧
+      ∀ id, v.current = some id → ∀ o, v.ops.lookup id = some o → isAckedPublish o.packet = true →
+        id ∈ vals v.pendingPub ∨ v.pendingPub.length < rm)
+    (hs : s' = .connected → sortedNat v.userQ = true ∧ sortedNat v.resubQ = true) :
+    Big S U { v with state := s' } :=
+  { h with h1 := hh1, c1 := hc1, f := hf, s := hs }
+
+theorem Big.halt {S U : List Nat} {v : View} (h : Big S U v) : Big S U { v with state := .halted } :=
+  h.setState .halted (fun hh => by cases hh) (fun hh => by cases hh) (fun hh => by cases hh) (fun hh => by cases hh)
+
+theorem Stp.halt {S U T W : List Nat} {a b : Engine} (h : Stp S U T W a b) : Stp S U T W a { b with state := .halted } :=
+  ⟨h.pres.halt, fun hok hb => (h.keeps hok hb).halt⟩
+
+theorem halt_stp {S U : List Nat} (e : Engine) : Stp S U S U e { e with state := .halted } := (Stp.refl S U e).halt
+
+/-- `handle_network_event_connection_opened` -/
+theorem handleOpened_stp (e : Engine) (d : Nat) (hD : D1 e.view) : Stp [] [] [] [] e (e.handleOpened d).1 := by
+  refine ⟨handleOpened_pres e d, ?_⟩
+  intro hok h
+  unfold Engine.handleOpened
+  split
+  · exact h.halt
+  · rename_i hst
+    have hdis : e.state = .disconnected := by
+      cases hs : e.state <;> simp [hs] at hst <;> rfl
+    obtain ⟨d1a, d1b, d1c, d1d, d1e, d1f⟩ := hD hdis
+    simp only []
+    -- the handshake state with nothing in flight
+    have h1 : Big [] [] ({ e with state := .pendingConnack, current := none, pendingWrite := false, dec := {} } : Engine).view := by
+      show Big [] [] { { e.view with current := none } with state := .pendingConnack }
+      have hcur : Big [] [] { e.view with current := none } := by
+        have : ({ e.view with current := none } : View) = e.view := by
+          show _ = e.view
+          have : e.view.current = none := d1a
+          cases hv : e.view with
+          | mk a b c d f g cur i j k l m n o => rw [hv] at this; simp only at this; subst this; rfl
+        rw [this]; exact h
+      refine hcur.setState .pendingConnack (fun _ => ?_) (fun hh => by cases hh) (fun hh => by cases hh) (fun hh => by cases hh)
+      refine ⟨?_, ?_, d1c, d1d, d1f⟩
+      · intro i hi
+        have : e.view.highQ ++ e.view.pendingWC = [] := by rw [d1b, d1e]; rfl
+        rw [show ({ e.view with current := none } : View).highQ ++ ({ e.view with current := none } : View).pendingWC = e.view.highQ ++ e.view.pendingWC from rfl, this] at hi
+        cases hi
+      · intro i hi; cases hi
+    generalize hE1 : ({ e with state := .pendingConnack, current := none, pendingWrite := false, dec := {} } : Engine) = e1 at h1 ⊢
+    have hok1 : e1.core.Ok := by
+      rw [← hE1]
+      exact ((Pres.of_core_conn (e := e) false rfl (by simp)) hok).1
+    have hst1 : e1.state = .pendingConnack := by rw [← hE1]
+    obtain ⟨hpa, hcr⟩ := createOp_step (S := []) (U := []) e1 e1.createConnect none (by simp)
+    have h2 := hcr hok1 h1
+    obtain ⟨f1, f2, f3, f4, f5, f6⟩ := createOp_fields e1 e1.createConnect none
+    rw [f1]
+    have hop : ((e1.createOp e1.createConnect none).1.op? e1.nextOpId).isNone = false := by
+      simp only [Engine.op?, f6]; rfl
+    simp only [Engine.enqueue, hop, Bool.false_eq_true, ↓reduceIte]
+    have hconn : isConnectPacket e1.createConnect = true := by
+      unfold Engine.createConnect; simp only []; split <;> rfl
+    have h3 := big_enqueue_high (e1.createOp e1.createConnect none).1 e1.nextOpId _ true h2 f6 (by rw [f2]; exact Nat.lt_succ_self _)
+      (fun _ => hconn)
+      (by cases hc : e1.createConnect <;> first | rfl | (rw [hc] at hconn; cases hconn)) rfl
+    exact h3
+
+/-! ### the connection-closed handler -/
+
+theorem Big.drop_located {S U : List Nat} {v : View} {id : Nat} (h : Big (id :: S) U v) (hl : v.Located id) : Big S U v := by
+  have hloc : ∀ id' o', v.ops.lookup id' = some o' → v.Located id' ∨ id' ∈ S := by
+    intro id' o' ho'
+    rcases h.loc id' o' ho' with a | a
+    · exact .inl a
+    · rcases List.mem_cons.mp a with rfl | a'
+      · exact .inl hl
+      · exact .inr a'
+  exact { h with loc := hloc }
+
+/-- clearing the current slot: its operation becomes an exception -/
+theorem Big.clearCurrent {S U : List Nat} {v : View} (h : Big S U v) (id : Nat) (hc : v.current = some id) :
+    Big (id :: S) U { v with current := none } := by
+  refine h.setCurrent none ?_ ?_ (fun i hi => by cases hi) (fun _ i hi => by cases hi) (fun _ i hi => by cases hi) (fun _ _ _ i hi => by cases hi)
+  · intro i hi
+    rw [hc] at hi; cases hi
+    exact .inr (List.mem_cons_self ..)
+  · intro i hi; exact .inr (List.mem_cons_of_mem _ hi)
+
+theorem Big.clearCurrent_none {S U : List Nat} {v : View} (h : Big S U v) (hc : v.current = none) : Big S U { v with current := none } := by
+  refine h.setCurrent none ?_ ?_ (fun i hi => by cases hi) (fun _ i hi => by cases hi) (fun _ i hi => by cases hi) (fun _ _ _ i hi => by cases hi)
+  · intro i hi; rw [hc] at hi; cases hi
+  · intro i hi; exact .inr hi
+
+/-- putting an excepted operation at the front of the user queue (not while connected) -/
+theorem Big.pushUserFront {S U : List Nat} {v : View} {id : Nat} (h : Big (id :: S) U v) (hid : id < v.nextOpId) (hs : v.state ≠ .connected) :
+    Big S U { v with userQ := id :: v.userQ } := by
+  refine h.setUserQ (id :: v.userQ) (fun i hi => .inl (List.mem_cons_of_mem _ hi)) ?_ ?_ (fun hd => absurd hd hs)
+  · intro i hi
+    rcases List.mem_cons.mp hi with rfl | a
+    · exact .inl (List.mem_cons_self ..)
+    · exact .inr a
+  · intro i hi
+    rcases List.mem_cons.mp hi with rfl | a
+    · exact hid
+    · exact h.qb.1 i (by simp only [List.mem_append]; exact .inl (.inl (.inl a)))
+
+theorem Big.pushResubFront {S U : List Nat} {v : View} {id : Nat} (h : Big (id :: S) U v) (hid : id < v.nextOpId) (hs : v.state ≠ .connected) :
+    Big S U { v with resubQ := id :: v.resubQ } := by
+  refine h.setResubQ (id :: v.resubQ) (fun i hi => .inl (List.mem_cons_of_mem _ hi)) ?_ ?_ (fun hd => absurd hd hs)
+  · intro i hi
+    rcases List.mem_cons.mp hi with rfl | a
+    · exact .inl (List.mem_cons_self ..)
+    · exact .inr a
+  · intro i hi
+    rcases List.mem_cons.mp hi with rfl | a
+    · exact hid
+    · exact h.qb.1 i (by simp only [List.mem_append]; exact .inl (.inl (.inr a)))
+
+theorem completeFailure_current (e : Engine) (id : Nat) (k : String) : (e.completeFailure id k).1.current = e.current :=
+  (completeFailure_same e id k).current
+
+/-- `apply_connection_closed_to_current_operation` (the engine is already marked Disconnected) -/
+theorem closeCurrent_stp (e : Engine) (hst : e.state = .disconnected) : Stp [] [] [] [] e e.closeCurrent.1 := by
+  refine ⟨closeCurrent_pres e, ?_⟩
+  intro hok h
+  have hnc : e.view.state ≠ .connected := by show e.state ≠ _; rw [hst]; decide
+  unfold Engine.closeCurrent
+  cases hc : e.current with
+  | none => exact h.clearCurrent_none hc
+  | some id =>
+    simp only []
+    have hidlt : id < e.view.nextOpId := h.qb.2 id hc
+    cases ho : e.op? id with
+    | none =>
+      exact (h.clearCurrent id hc).drop_untracked ho
+    | some o =>
+      simp only []
+      rw [show (some id : Option Nat) = e.current from hc.symm]
+      -- finishing: the slot is cleared once the operation sits somewhere else (or is gone)
+      have fin : ∀ (x : Engine × Res), Big [] [] x.1.view → x.1.current = some id →
+          ((id ∈ x.1.userQ ∨ id ∈ x.1.resubQ ∨ id ∈ x.1.highQ ∨ id ∈ vals x.1.pendingPub) ∨ x.1.ops.lookup id = none) →
+          Big [] [] (if x.2.isOk = true then (({ x.1 with current := none } : Engine), Res.ok) else (x.1, x.2)).1.view := by
+        intro x hx hcur hwhere
+        split
+        · have h1 := hx.clearCurrent id hcur
+          rcases hwhere with hw | hw
+          · refine h1.drop_located ?_
+            rcases hw with a | a | a | a
+            · exact .inl a
+            · exact .inr (.inl a)
+            · exact .inr (.inr (.inl a))
+            · exact .inr (.inr (.inr (.inr (.inr (.inl a)))))
+          · exact h1.drop_untracked hw
+        · exact hx
+      have hfail : ∀ k, Big [] [] (e.completeFailure id k).1.view ∧ (e.completeFailure id k).1.current = some id ∧
+          (e.completeFailure id k).1.ops.lookup id = none :=
+        fun k => ⟨completeFailure_big e id k h, by rw [completeFailure_current]; exact hc, completeFailure_untracks e id k⟩
+      have huser : Big [] [] ({ e with userQ := id :: e.userQ } : Engine).view := by
+        show Big [] [] { e.view with userQ := id :: e.userQ }
+        refine h.setUserQ (id :: e.userQ) (fun i hi => .inl (List.mem_cons_of_mem _ hi)) (fun i hi => by cases hi) ?_ (fun hd => absurd hd hnc)
+        intro i hi
+        rcases List.mem_cons.mp hi with rfl | a
+        · exact hidlt
+        · exact h.qb.1 i (by simp only [List.mem_append]; exact .inl (.inl (.inl a)))
+      apply fin
+      · -- the invariant after the re-filing
+        split
+        · split
+          · exact huser
+          · exact (hfail _).1
+        · split
+          · exact huser
+          · exact (hfail _).1
+        · rename_i p hp
+          split
+          · split
+            · exact h
+            · show Big [] [] { e.view with resubQ := id :: e.resubQ }
+              refine h.setResubQ (id :: e.resubQ) (fun i hi => .inl (List.mem_cons_of_mem _ hi)) (fun i hi => by cases hi) ?_ (fun hd => absurd hd hnc)
+              intro i hi
+              rcases List.mem_cons.mp hi with rfl | a
+              · exact hidlt
+              · exact h.qb.1 i (by simp only [List.mem_append]; exact .inl (.inl (.inr a)))
+          · rename_i hnd
+            split
+            · rename_i hq2
+              have hpub : o.pubrel.isSome = true := by
+                simp only [Bool.and_eq_true] at hq2; exact hq2.2
+              have hdup : pktDup o.packet = false := by rw [hp]; simpa [pktDup] using hnd
+              show Big [] [] { e.view with highQ := id :: e.highQ }
+              refine h.setHighQ (id :: e.highQ) (fun i hi => .inl (List.mem_cons_of_mem _ hi)) (fun i hi => by cases hi) ?_ ?_ ?_ ?_
+              · intro i hi
+                rcases List.mem_cons.mp hi with rfl | a
+                · exact hidlt
+                · exact h.qb.1 i (by simp only [List.mem_append]; exact .inl (.inr a))
+              · intro i hi x hx hk
+                rcases List.mem_cons.mp hi with rfl | a
+                · have : e.view.ops.lookup i = some o := ho
+                  rw [this] at hx; cases hx; exact hpub
+                · exact h.h2 i a x hx hk
+              · intro i hi x hx hk
+                rcases List.mem_cons.mp hi with rfl | a
+                · have : e.view.ops.lookup i = some o := ho
+                  rw [this] at hx; cases hx
+                  rcases h.pr i o this hk with b | b | b
+                  · rw [hdup] at b; cases b
+                  · exact b
+                  · cases b
+                · exact h.pr2 i a x hx hk
+              · intro hd; rw [show e.view.state = e.state from rfl, hst] at hd; cases hd
+            · split
+              · exact huser
+              · exact (hfail _).1
+        all_goals exact (hfail _).1
+      · -- the slot still names the operation
+        split
+        · split
+          · exact hc
+          · exact (hfail _).2.1
+        · split
+          · exact hc
+          · exact (hfail _).2.1
+        · split
+          · split <;> exact hc
+          · split
+            · exact hc
+            · split
+              · exact hc
+              · exact (hfail _).2.1
+        all_goals exact (hfail _).2.1
+      · -- where the operation went
+        split
+        · split
+          · exact .inl (.inl (List.mem_cons_self ..))
+          · exact .inr (hfail _).2.2
+        · split
+          · exact .inl (.inl (List.mem_cons_self ..))
+          · exact .inr (hfail _).2.2
+        · rename_i p hp
+          split
+          · split
+            · rename_i hin
+              have : e.pendingPub.lookup p.packetId = some id := by rw [← hc]; simpa using hin
+              exact .inl (.inr (.inr (.inr (mem_vals_of_lookup this))))
+            · exact .inl (.inr (.inl (List.mem_cons_self ..)))
+          · split
+            · exact .inl (.inr (.inr (.inl (List.mem_cons_self ..))))
+            · split
+              · exact .inl (.inl (List.mem_cons_self ..))
+              · exact .inr (hfail _).2.2
+        all_goals exact .inr (hfail _).2.2
+
+/-- exceptions that are located again, or no longer tracked, can be dropped -/
+theorem Big.shrink {S T U : List Nat} {v : View} (h : Big S U v)
+    (hs : ∀ id ∈ S, id ∈ T ∨ v.Located id ∨ v.ops.lookup id = none) : Big T U v := by
+  have hloc : ∀ id o, v.ops.lookup id = some o → v.Located id ∨ id ∈ T := by
+    intro id o ho
+    rcases h.loc id o ho with a | a
+    · exact .inl a
+    · rcases hs id a with b | b | b
+      · exact .inr b
+      · exact .inl b
+      · rw [b] at ho; cases ho
+  exact { h with loc := hloc }
+
+theorem partitionByPolicy_mem (e : Engine) (q : List Nat) :
+    (∀ id ∈ (e.partitionByPolicy q).1, id ∈ q) ∧ (∀ id ∈ (e.partitionByPolicy q).2, id ∈ q) ∧
+    (∀ id ∈ q, (e.op? id).isSome = true → id ∈ (e.partitionByPolicy q).1 ∨ id ∈ (e.partitionByPolicy q).2) := by
+  unfold Engine.partitionByPolicy
+  simp only []
+  refine ⟨?_, ?_, ?_⟩
+  · intro id hid
+    simp only [List.mem_map, List.mem_filter, List.mem_filterMap] at hid
+    obtain ⟨x, ⟨⟨a, ha, hx⟩, _⟩, rfl⟩ := hid
+    cases ho : e.op? a with
+    | none => rw [ho] at hx; cases hx
+    | some o => rw [ho] at hx; simp only [Option.map_some, Option.some.injEq] at hx; rw [← hx]; exact ha
+  · intro id hid
+    simp only [List.mem_map, List.mem_filter, List.mem_filterMap] at hid
+    obtain ⟨x, ⟨⟨a, ha, hx⟩, _⟩, rfl⟩ := hid
+    cases ho : e.op? a with
+    | none => rw [ho] at hx; cases hx
+    | some o => rw [ho] at hx; simp only [Option.map_some, Option.some.injEq] at hx; rw [← hx]; exact ha
+  · intro id hid hsome
+    obtain ⟨o, ho⟩ := Option.isSome_iff_exists.mp hsome
+    have hmem : (id, o.packet) ∈ q.filterMap (fun id => (e.op? id).map (fun o => (id, o.packet))) := by
+      simp only [List.mem_filterMap]
+      exact ⟨id, hid, by rw [ho]; rfl⟩
+    by_cases hp : passesPolicy o.packet e.cfg.policy = true
+    · left
+      simp only [List.mem_map, List.mem_filter]
+      exact ⟨(id, o.packet), ⟨hmem, hp⟩, rfl⟩
+    · right
+      simp only [List.mem_map, List.mem_filter]
+      exact ⟨(id, o.packet), ⟨hmem, by simpa using hp⟩, rfl⟩
+
+theorem failExceeding_stp {S U : List Nat} (e : Engine) : Stp S U S U e e.failExceeding.1 := by
+  unfold Engine.failExceeding
+  split
+  · exact Stp.refl _ _ _
+  · simp only []
+    exact (failAll_step _ _ _).trans (failAll_step _ _ _)
+
+theorem failAllIgnoringDisconnect_state' (e : Engine) (ids : List Nat) (k : String) (h : e.state = .disconnected) :
+    (e.failAllIgnoringDisconnect ids k).1.state = .disconnected := by
+  rw [failAllIgnoringDisconnect_state ids k e (by rw [h]; decide)]; exact h
+
+/-- close handler, part 1 -/
+theorem closeFailStage_stp (e3 : Engine) (hst : e3.state = .disconnected) : Stp [] [] [] [] e3 e3.closeFailStage.1 := by
+  refine ⟨closeFailStage_pres e3, ?_⟩
+  intro hok h
+  let e4 : Engine := { e3 with highQ := [] }
+  let failures := e3.highQ.filter (fun id => match e4.op? id with | some o => o.pubrel.isNone | none => true)
+  let x5 := e4.failAllIgnoringDisconnect failures "ConnectionClosed"
+  let e6 : Engine := { x5.1 with pendingWC := [] }
+  let pr := e6.partitionByPolicy x5.1.pendingWC
+  let e7 : Engine := { e6 with userQ := e6.userQ ++ pr.1 }
+  let x8 := e7.failAllIgnoringDisconnect pr.2 "OfflineQueuePolicyFailed"
+  -- highQ emptied: what it held and carried no PUBREL is about to be failed; the rest is in the pending-publish table
+  have h4 : Big (failures ++ []) [] e4.view := by
+    have a : Big e3.highQ [] e4.view := by
+      show Big e3.highQ [] { e3.view with highQ := [] }
+      exact h.setHighQ [] (fun i hi => .inr hi) (fun i hi => by cases hi) (fun i hi => by cases hi) (fun i hi => by cases hi)
+        (fun i hi => by cases hi) (fun _ i hi => by cases hi)
+    refine a.shrink ?_
+    intro id hid
+    by_cases hf : id ∈ failures
+    · exact .inl (List.mem_append_left _ hf)
+    · right
+      cases ho : e3.op? id with
+      | none => exact .inr ho
+      | some o =>
+        left
+        have hpr : o.pubrel.isSome = true := by
+          cases hp : o.pubrel with
+          | some _ => rfl
+          | none =>
+            exfalso; apply hf
+            simp only [failures, List.mem_filter]
+            refine ⟨hid, ?_⟩
+            have : e4.op? id = some o := ho
+            rw [this]; simp [hp]
+        have := h.pr2 id hid o ho hpr
+        exact .inr (.inr (.inr (.inr (.inr (.inl this)))))
+  have hok4 : e4.core.Ok := hok
+  have s5 := failAllIgnoringDisconnect_step_drop (S := []) (U := []) e4 failures "ConnectionClosed"
+  have h5 : Big [] [] x5.1.view := s5.keeps hok4 h4
+  have hok5 : x5.1.core.Ok := (s5.pres hok4).1
+  have hst5 : x5.1.state = .disconnected := failAllIgnoringDisconnect_state' e4 failures _ hst
+  -- the written-but-unflushed operations: retained ones rejoin the user queue, the others are failed
+  have hwcq : ∀ i ∈ x5.1.pendingWC, i < x5.1.nextOpId := fun i hi => h5.qb.1 i (List.mem_append_right _ hi)
+  have h6 : Big x5.1.pendingWC [] e6.view := by
+    show Big x5.1.pendingWC [] { x5.1.view with pendingWC := [] }
+    exact h5.setPendingWC [] (fun i hi => .inr hi) (fun i hi => by cases hi) (fun i hi => by cases hi) (fun i hi => by cases hi)
+      (fun _ i hi => by cases hi)
+  have hpm := partitionByPolicy_mem e6 x5.1.pendingWC
+  have h7 : Big (pr.2 ++ []) [] e7.view := by
+    have a : Big x5.1.pendingWC [] e7.view := by
+      show Big x5.1.pendingWC [] { e6.view with userQ := e6.userQ ++ pr.1 }
+      refine h6.setUserQ (e6.userQ ++ pr.1) (fun i hi => .inl (List.mem_append_left _ hi)) (fun i hi => .inr hi) ?_
+        (fun hd => by rw [show e6.view.state = x5.1.state from rfl, hst5] at hd; cases hd)
+      intro i hi
+      rcases List.mem_append.mp hi with b | b
+      · exact h6.qb.1 i (by simp only [List.mem_append]; exact .inl (.inl (.inl b)))
+      · exact hwcq i (hpm.1 i b)
+    refine a.shrink ?_
+    intro id hid
+    cases ho : e6.op? id with
+    | none => exact .inr (.inr ho)
+    | some o =>
+      rcases hpm.2.2 id hid (by rw [ho]; rfl) with b | b
+      · exact .inr (.inl (.inl (List.mem_append_right _ b)))
+      · exact .inl (List.mem_append_left _ b)
+  have hok7 : e7.core.Ok := ((Pres.of_core_wc (e := x5.1) (e' := e6) [] rfl (by simp)).trans (Pres.of_core_eq (e' := e7) rfl) hok5).1
+  have s8 := failAllIgnoringDisconnect_step_drop (S := []) (U := []) e7 pr.2 "OfflineQueuePolicyFailed"
+  have h8 : Big [] [] x8.1.view := s8.keeps hok7 h7
+  have hok8 : x8.1.core.Ok := (s8.pres hok7).1
+  exact (failExceeding_stp (S := []) (U := []) x8.1).keeps hok8 h8
+
+theorem failAll_same (k : String) : ∀ (ids : List Nat) (e : Engine), SameClock (e.failAll ids k).1 e := by
+  intro ids e
+  unfold Engine.failAll
+  have : ∀ (l : List Nat) (acc : Engine × Res), SameClock (l.foldl (fun (acc : Engine × Res) id =>
+      match acc.1.completeFailure id k with | (e', r) => (e', acc.2.fold r)) acc).1 acc.1 := by
+    intro l
+    induction l with
+    | nil => intro acc; exact SameClock.refl _
+    | cons x xs ih => intro acc; exact (ih _).trans (completeFailure_same acc.1 x k)
+  exact this ids (e, .ok)
+
+theorem failAllIgnoringDisconnect_same (k : String) (ids : List Nat) (e : Engine) : SameClock (e.failAllIgnoringDisconnect ids k).1 e := by
+  unfold Engine.failAllIgnoringDisconnect
+  have : ∀ (l : List Nat) (acc : Engine × Res), SameClock (l.foldl (fun (acc : Engine × Res) id =>
+      match acc.1.completeFailure id k with | (e', r) => (e', acc.2.fold (ignoreUserDisconnect r))) acc).1 acc.1 := by
+    intro l
+    induction l with
+    | nil => intro acc; exact SameClock.refl _
+    | cons x xs ih => intro acc; exact (ih _).trans (completeFailure_same acc.1 x k)
+  exact this ids (e, .ok)
+
+theorem failExceeding_same (e : Engine) : SameClock e.failExceeding.1 e := by
+  unfold Engine.failExceeding
+  split
+  · exact SameClock.refl _
+  · simp only []
+    exact (failAll_same _ _ _).trans (failAll_same _ _ _)
+
+theorem closeFailStage_highQ (e3 : Engine) : e3.closeFailStage.1.highQ = [] := by
+  let e4 : Engine := { e3 with highQ := [] }
+  let failures := e3.highQ.filter (fun id => match e4.op? id with | some o => o.pubrel.isNone | none => true)
+  let x5 := e4.failAllIgnoringDisconnect failures "ConnectionClosed"
+  let e6 : Engine := { x5.1 with pendingWC := [] }
+  let pr := e6.partitionByPolicy x5.1.pendingWC
+  let e7 : Engine := { e6 with userQ := e6.userQ ++ pr.1 }
+  let x8 := e7.failAllIgnoringDisconnect pr.2 "OfflineQueuePolicyFailed"
+  have a : x5.1.highQ = [] := (failAllIgnoringDisconnect_same _ failures e4).highQ
+  have b : x8.1.highQ = [] := ((failAllIgnoringDisconnect_same _ pr.2 e7).highQ).trans a
+  exact ((failExceeding_same x8.1).highQ).trans b
+
+/-- emptying the pending-publish table once every operation in it sits in another container and is marked DUP -/
+theorem Big.clearPendingPub {S U : List Nat} {v : View} (h : Big S U v) (hns : v.state ≠ .connected) (hhq : v.highQ = [])
+    (hloc : ∀ id ∈ vals v.pendingPub, id ∈ v.resubQ)
+    (hdup : ∀ id ∈ vals v.pendingPub, ∀ o, v.ops.lookup id = some o → pktDup o.packet = true) :
+    Big S U { v with pendingPub := [] } := by
+  have hl : ∀ i x, v.ops.lookup i = some x → ({ v with pendingPub := [] } : View).Located i ∨ i ∈ S := by
+    intro i x hx
+    rcases h.loc i x hx with a | a
+    · left
+      rcases a with a | a | a | a | a | a | a
+      · exact .inl a
+      · exact .inr (.inl a)
+      · exact .inr (.inr (.inl a))
+      · exact .inr (.inr (.inr (.inl a)))
+      · exact .inr (.inr (.inr (.inr (.inl a))))
+      · exact .inr (.inl (hloc i a))
+      · exact .inr (.inr (.inr (.inr (.inr (.inr a)))))
+    · exact .inr a
+  exact { h with
+    tps := KeysSorted.nil
+    tp := fun q i hq => by cases hq
+    loc := hl
+    p3 := fun i x q hx hp => (h.p3 i x q hx hp).elim .inl (fun a => .inr ⟨a.1, a.2.1, rfl, a.2.2.2⟩)
+    pr := fun i x hx hp => by
+      rcases h.pr i x hx hp with a | a | a
+      · exact .inl a
+      · exact .inl (hdup i a x hx)
+      · exact .inr (.inr a)
+    pr2 := fun i hi => by rw [show ({ v with pendingPub := [] } : View).highQ = v.highQ from rfl, hhq] at hi; cases hi
+    h1 := fun hd => by
+      obtain ⟨a, b, _, d, e⟩ := h.h1 hd
+      exact ⟨a, b, rfl, d, e⟩
+    f := fun hd => absurd hd hns }
+
+theorem Big.clearPendingNonPub {S U : List Nat} {v : View} (h : Big S U v) (hloc : ∀ id ∈ vals v.pendingNonPub, id ∈ v.userQ) :
+    Big S U { v with pendingNonPub := [] } := by
+  have hl : ∀ i x, v.ops.lookup i = some x → ({ v with pendingNonPub := [] } : View).Located i ∨ i ∈ S := by
+    intro i x hx
+    rcases h.loc i x hx with a | a
+    · left
+      rcases a with a | a | a | a | a | a | a
+      · exact .inl a
+      · exact .inr (.inl a)
+      · exact .inr (.inr (.inl a))
+      · exact .inr (.inr (.inr (.inl a)))
+      · exact .inr (.inr (.inr (.inr (.inl a))))
+      · exact .inr (.inr (.inr (.inr (.inr (.inl a)))))
+      · exact .inl (hloc i a)
+    · exact .inr a
+  exact { h with
+    tns := KeysSorted.nil
+    tn := fun q i hq => by cases hq
+    loc := hl
+    p3 := fun i x q hx hp => (h.p3 i x q hx hp).elim .inl (fun a => .inr ⟨a.1, a.2.1, a.2.2.1, rfl⟩)
+    h1 := fun hd => by
+      obtain ⟨a, b, c, _, e⟩ := h.h1 hd
+      exact ⟨a, b, c, rfl, e⟩ }
+
+/-! close handler, part 2: the two re-queueing folds -/
+
+theorem setDup_true_dup (p : Packet) : (pktDup p = true → pktDup (setDup p true) = true) ∧ (isAckedPublish p = true → pktDup (setDup p true) = true) := by
+  cases p <;> simp [setDup, pktDup, isAckedPublish]
+
+theorem setDupFlag_true_lookup (en : Engine) (hok : en.core.Ok) (id j : Nat) (x' : Op) (h : (en.setDupFlag id true).ops.lookup j = some x') :
+    ∃ x, en.ops.lookup j = some x ∧ (pktDup x.packet = true → pktDup x'.packet = true) ∧
+      (j = id → isAckedPublish x.packet = true → pktDup x'.packet = true) := by
+  unfold Engine.setDupFlag at h
+  cases ho : en.op? id with
+  | none => rw [ho] at h; exact ⟨x', h, fun a => a, fun hj hk => by subst hj; rw [show en.ops.lookup j = en.op? j from rfl, ho] at h; cases h⟩
+  | some o =>
+    rw [ho] at h
+    have hid := hok.id_eq (show en.core.ops.lookup id = some o from ho)
+    simp only [Engine.setOp] at h
+    rw [hid, lookup_mapInsert] at h
+    split at h
+    · rename_i hj
+      cases h; subst hj
+      exact ⟨o, ho, (setDup_true_dup o.packet).1, fun _ => (setDup_true_dup o.packet).2⟩
+    · rename_i hj
+      exact ⟨x', h, fun a => a, fun hh => absurd hh hj⟩
+
+def requeuePubStep (en : Engine) (id : Nat) : Engine := { en.setDupFlag id true with resubQ := en.resubQ ++ [id] }
+
+theorem requeuePubStep_fields (en : Engine) (id : Nat) :
+    (requeuePubStep en id).state = en.state ∧ (requeuePubStep en id).pendingPub = en.pendingPub ∧
+    (requeuePubStep en id).pendingNonPub = en.pendingNonPub ∧ (requeuePubStep en id).highQ = en.highQ ∧
+    (requeuePubStep en id).userQ = en.userQ ∧ (requeuePubStep en id).resubQ = en.resubQ ++ [id] := by
+  unfold requeuePubStep Engine.setDupFlag
+  cases en.op? id <;> exact ⟨rfl, rfl, rfl, rfl, rfl, rfl⟩
+
+theorem requeuePubStep_stp (en : Engine) (id : Nat) (hst : en.state = .disconnected) (hin : id ∈ vals en.pendingPub) :
+    Stp [] [] [] [] en (requeuePubStep en id) := by
+  refine ⟨(setDupFlag_pres en id true).trans (Pres.of_core_eq rfl), ?_⟩
+  intro hok h
+  have h1 := (setDupFlag_true_stp (S := []) (U := []) en id).keeps hok h
+  have hlt : id < en.nextOpId := by
+    obtain ⟨q, hq⟩ := lookup_of_mem_vals h.tps hin
+    obtain ⟨o, ho, _⟩ := h.tp q id hq
+    exact (hok.ids _ (mem_of_lookup ho)).2
+  have hf : (en.setDupFlag id true).resubQ = en.resubQ ∧ (en.setDupFlag id true).nextOpId = en.nextOpId ∧ (en.setDupFlag id true).state = en.state := by
+    unfold Engine.setDupFlag; cases en.op? id <;> exact ⟨rfl, rfl, rfl⟩
+  show Big [] [] { (en.setDupFlag id true).view with resubQ := en.resubQ ++ [id] }
+  refine h1.setResubQ (en.resubQ ++ [id]) (fun i hi => .inl (by rw [show (en.setDupFlag id true).view.resubQ = (en.setDupFlag id true).resubQ from rfl, hf.1] at hi; exact List.mem_append_left _ hi))
+    (fun i hi => by cases hi) ?_ (fun hd => by rw [show (en.setDupFlag id true).view.state = (en.setDupFlag id true).state from rfl, hf.2.2, hst] at hd; cases hd)
+  intro i hi
+  rw [show (en.setDupFlag id true).view.nextOpId = (en.setDupFlag id true).nextOpId from rfl, hf.2.1]
+  rcases List.mem_append.mp hi with a | a
+  · exact h.qb.1 i (by simp only [List.mem_append]; exact .inl (.inl (.inr a)))
+  · rw [List.mem_singleton.mp a]; exact hlt
+
+theorem requeuePub_fold : ∀ (l : List Nat) (en : Engine) (done : List Nat), en.core.Ok → Big [] [] en.view → en.state = .disconnected →
+    (∀ id ∈ l, id ∈ vals en.pendingPub) →
+    (∀ id ∈ done, id ∈ en.resubQ ∧ ∀ o, en.ops.lookup id = some o → pktDup o.packet = true) →
+    (l.foldl requeuePubStep en).core.Ok ∧ Big [] [] (l.foldl requeuePubStep en).view ∧ (l.foldl requeuePubStep en).state = .disconnected ∧
+    (l.foldl requeuePubStep en).pendingPub = en.pendingPub ∧ (l.foldl requeuePubStep en).pendingNonPub = en.pendingNonPub ∧
+    (l.foldl requeuePubStep en).highQ = en.highQ ∧ (l.foldl requeuePubStep en).userQ = en.userQ ∧
+    (∀ id ∈ done ++ l, id ∈ (l.foldl requeuePubStep en).resubQ ∧ ∀ o, (l.foldl requeuePubStep en).ops.lookup id = some o → pktDup o.packet = true) := by
+  intro l
+  induction l with
+  | nil => intro en done hok h hst _ hd; exact ⟨hok, h, hst, rfl, rfl, rfl, rfl, by simpa using hd⟩
+  | cons x xs ih =>
+    intro en done hok h hst hl hd
+    have hx := hl x (List.mem_cons_self ..)
+    have st := requeuePubStep_stp en x hst hx
+    have f := requeuePubStep_fields en x
+    have hok' := (st.pres hok).1
+    have h' := st.keeps hok h
+    have hd' : ∀ id ∈ done ++ [x], id ∈ (requeuePubStep en x).resubQ ∧ ∀ o, (requeuePubStep en x).ops.lookup id = some o → pktDup o.packet = true := by
+      intro id hid
+      refine ⟨?_, ?_⟩
+      · rw [f.2.2.2.2.2]
+        rcases List.mem_append.mp hid with a | a
+        · exact List.mem_append_left _ (hd id a).1
+        · exact List.mem_append_right _ a
+      · intro o ho
+        obtain ⟨y, hy, hk1, hk2⟩ := setDupFlag_true_lookup en hok x id o ho
+        rcases List.mem_append.mp hid with a | a
+        · exact hk1 ((hd id a).2 y hy)
+        · have hidx : id = x := List.mem_singleton.mp a
+          obtain ⟨q, hq⟩ := lookup_of_mem_vals h.tps hx
+          obtain ⟨z, hz, _, hzk⟩ := h.tp q x hq
+          subst hidx
+          have : en.view.ops.lookup id = some y := hy
+          rw [this] at hz; cases hz
+          exact hk2 rfl hzk
+    have r := ih (requeuePubStep en x) (done ++ [x]) hok' h' (by rw [f.1]; exact hst) (fun id hid => by rw [f.2.1]; exact hl id (List.mem_cons_of_mem _ hid)) hd'
+    simp only [List.foldl]
+    refine ⟨r.1, r.2.1, r.2.2.1, r.2.2.2.1.trans f.2.1, r.2.2.2.2.1.trans f.2.2.1, r.2.2.2.2.2.1.trans f.2.2.2.1, r.2.2.2.2.2.2.1.trans f.2.2.2.2.1, ?_⟩
+    intro id hid
+    apply r.2.2.2.2.2.2.2 id
+    simp only [List.mem_append, List.mem_cons, List.not_mem_nil, or_false] at hid ⊢
+    rcases hid with a | a | a
+    · exact .inl (.inl a)
+    · exact .inl (.inr a)
+    · exact .inr a
+
+def requeueSubStep (en : Engine) (id : Nat) : Engine := { en with userQ := id :: en.userQ }
+
+theorem requeueSub_fold : ∀ (l : List Nat) (en : Engine), en.core.Ok → Big [] [] en.view → en.state = .disconnected →
+    (∀ id ∈ l, id ∈ vals en.pendingNonPub) →
+    (l.foldl requeueSubStep en).core.Ok ∧ Big [] [] (l.foldl requeueSubStep en).view ∧ (l.foldl requeueSubStep en).state = .disconnected ∧
+    (l.foldl requeueSubStep en).pendingNonPub = en.pendingNonPub ∧ (l.foldl requeueSubStep en).highQ = en.highQ ∧
+    (∀ id ∈ l, id ∈ (l.foldl requeueSubStep en).userQ) ∧ (∀ id ∈ en.userQ, id ∈ (l.foldl requeueSubStep en).userQ) := by
+  intro l
+  induction l with
+  | nil => intro en hok h hst _; exact ⟨hok, h, hst, rfl, rfl, (fun _ hi => by cases hi), (fun _ hi => hi)⟩
+  | cons x xs ih =>
+    intro en hok h hst hl
+    have hx := hl x (List.mem_cons_self ..)
+    have hlt : x < en.nextOpId := by
+      obtain ⟨q, hq⟩ := lookup_of_mem_vals h.tns hx
+      obtain ⟨o, ho, _⟩ := h.tn q x hq
+      exact (hok.ids _ (mem_of_lookup ho)).2
+    have h' : Big [] [] (requeueSubStep en x).view := by
+      show Big [] [] { en.view with userQ := x :: en.userQ }
+      refine h.setUserQ (x :: en.userQ) (fun i hi => .inl (List.mem_cons_of_mem _ hi)) (fun i hi => by cases hi) ?_
+        (fun hd => by rw [show en.view.state = en.state from rfl, hst] at hd; cases hd)
+      intro i hi
+      rcases List.mem_cons.mp hi with rfl | a
+      · exact hlt
+      · exact h.qb.1 i (by simp only [List.mem_append]; exact .inl (.inl (.inl a)))
+    have r := ih (requeueSubStep en x) hok h' hst (fun id hid => hl id (List.mem_cons_of_mem _ hid))
+    simp only [List.foldl]
+    refine ⟨r.1, r.2.1, r.2.2.1, r.2.2.2.1, r.2.2.2.2.1, ?_, ?_⟩
+    · intro id hid
+      rcases List.mem_cons.mp hid with rfl | a
+      · exact r.2.2.2.2.2.2 _ (List.mem_cons_self ..)
+      · exact r.2.2.2.2.2.1 id a
+    · intro id hid
+      exact r.2.2.2.2.2.2 id (List.mem_cons_of_mem _ hid)
+
+theorem requeuePub_comm : ∀ (l : List Nat) (en : Engine),
+    l.foldl (fun en id => { en.setDupFlag id true with resubQ := en.resubQ ++ [id] }) { en with pendingPub := [] } =
+    { (l.foldl requeuePubStep en) with pendingPub := [] } := by
+  intro l
+  induction l with
+  | nil => intro en; rfl
+  | cons x xs ih =>
+    intro en
+    simp only [List.foldl]
+    have : ({ ({ en with pendingPub := [] } : Engine).setDupFlag x true with resubQ := ({ en with pendingPub := [] } : Engine).resubQ ++ [x] } : Engine) =
+        { requeuePubStep en x with pendingPub := [] } := by
+      unfold requeuePubStep Engine.setDupFlag
+      have hop : ({ en with pendingPub := [] } : Engine).op? x = en.op? x := rfl
+      rw [hop]
+      cases en.op? x <;> rfl
+    rw [this]
+    exact ih _
+
+theorem requeueSub_comm : ∀ (l : List Nat) (en : Engine),
+    l.foldl (fun en id => { en with userQ := id :: en.userQ }) { en with pendingNonPub := [] } =
+    { (l.foldl requeueSubStep en) with pendingNonPub := [] } := by
+  intro l
+  induction l with
+  | nil => intro en; rfl
+  | cons x xs ih => intro en; simp only [List.foldl]; exact ih (requeueSubStep en x)
+
+/-- close handler, part 2 -/
+theorem closeRequeueStage_stp (e9 : Engine) (hst : e9.state = .disconnected) (hhq : e9.highQ = []) :
+    Stp [] [] [] [] e9 e9.closeRequeueStage.1 := by
+  refine ⟨closeRequeueStage_pres e9, ?_⟩
+  intro hok h
+  -- unacked publishes: DUP, to the back of the resubmit queue; then the table is emptied
+  have fa := requeuePub_fold (vals e9.pendingPub) e9 [] hok h hst (fun id hid => hid) (fun _ hi => by cases hi)
+  let e10' := (vals e9.pendingPub).foldl requeuePubStep e9
+  have h10 : Big [] [] ({ e10' with pendingPub := [] } : Engine).view := by
+    show Big [] [] { e10'.view with pendingPub := [] }
+    refine fa.2.1.clearPendingPub (by rw [show e10'.view.state = e10'.state from rfl, fa.2.2.1]; decide)
+      (by rw [show e10'.view.highQ = e10'.highQ from rfl, fa.2.2.2.2.2.1]; exact hhq) ?_ ?_
+    · intro id hid
+      rw [show e10'.view.pendingPub = e10'.pendingPub from rfl, fa.2.2.2.1] at hid
+      exact (fa.2.2.2.2.2.2.2 id hid).1
+    · intro id hid o ho
+      rw [show e10'.view.pendingPub = e10'.pendingPub from rfl, fa.2.2.2.1] at hid
+      exact (fa.2.2.2.2.2.2.2 id hid).2 o ho
+  let e10 : Engine := { e10' with pendingPub := [] }
+  have hok10 : e10.core.Ok := fa.1
+  have hst10 : e10.state = .disconnected := fa.2.2.1
+  -- unacked subscribes / unsubscribes: to the front of the user queue; then the table is emptied
+  have fb := requeueSub_fold (vals e10.pendingNonPub) e10 hok10 h10 hst10 (fun id hid => hid)
+  let e11' := (vals e10.pendingNonPub).foldl requeueSubStep e10
+  have h11 : Big [] [] ({ e11' with pendingNonPub := [] } : Engine).view := by
+    show Big [] [] { e11'.view with pendingNonPub := [] }
+    refine fb.2.1.clearPendingNonPub ?_
+    intro id hid
+    rw [show e11'.view.pendingNonPub = e11'.pendingNonPub from rfl, fb.2.2.2.1] at hid
+    exact fb.2.2.2.2.2.1 id hid
+  let e11 : Engine := { e11' with pendingNonPub := [] }
+  have hok11 : e11.core.Ok := fb.1
+  have hst11 : e11.state = .disconnected := fb.2.2.1
+  -- the user queue is filtered by the offline policy
+  let e12 : Engine := { e11 with userQ := [] }
+  let pr := e12.partitionByPolicy e11.userQ
+  have hpm := partitionByPolicy_mem e12 e11.userQ
+  have huq : ∀ i ∈ e11.userQ, i < e11.nextOpId := fun i hi => h11.qb.1 i (by simp only [List.mem_append]; exact .inl (.inl (.inl hi)))
+  have h12 : Big (pr.2 ++ pr.1) [] e12.view := by
+    have a : Big e11.userQ [] e12.view := by
+      show Big e11.userQ [] { e11.view with userQ := [] }
+      exact h11.setUserQ [] (fun i hi => .inr hi) (fun i hi => by cases hi) (fun i hi => by cases hi) (fun _ => rfl)
+    refine a.shrink ?_
+    intro id hid
+    cases ho : e12.op? id with
+    | none => exact .inr (.inr ho)
+    | some o =>
+      rcases hpm.2.2 id hid (by rw [ho]; rfl) with b | b
+      · exact .inl (List.mem_append_right _ b)
+      · exact .inl (List.mem_append_left _ b)
+  have hok12 : e12.core.Ok := hok11
+  have s13 := failAll_step_drop (S := pr.1) (U := []) e12 pr.2 "OfflineQueuePolicyFailed"
+  let x13 := e12.failAll pr.2 "OfflineQueuePolicyFailed"
+  have h13 : Big pr.1 [] x13.1.view := s13.keeps hok12 h12
+  have hsame := failAll_same "OfflineQueuePolicyFailed" pr.2 e12
+  have hfin : Big [] [] ({ x13.1 with userQ := x13.1.userQ ++ pr.1 } : Engine).view := by
+    show Big [] [] { x13.1.view with userQ := x13.1.userQ ++ pr.1 }
+    refine h13.setUserQ (x13.1.userQ ++ pr.1) (fun i hi => .inl (List.mem_append_left _ hi)) (fun i hi => .inl (List.mem_append_right _ hi)) ?_
+      (fun hd => by
+        have : x13.1.state = .disconnected := by rw [failAll_state pr.2 _ e12 (by rw [show e12.state = e11.state from rfl, hst11]; decide)]; exact hst11
+        rw [show x13.1.view.state = x13.1.state from rfl, this] at hd; cases hd)
+    intro i hi
+    rw [show x13.1.view.nextOpId = x13.1.nextOpId from rfl, hsame.nextOpId]
+    rcases List.mem_append.mp hi with b | b
+    · rw [hsame.userQ] at b; cases b
+    · exact huq i (hpm.1 i b)
+  have hres : e9.closeRequeueStage.1 = { x13.1 with userQ := x13.1.userQ ++ pr.1 } := by
+    unfold Engine.closeRequeueStage
+    simp only []
+    rw [requeuePub_comm, requeueSub_comm]
+    rfl
+  rw [hres]; exact hfin
+
+/-! ### results: which errors completion can return -/
+
+theorem completeFailure_result (e : Engine) (id : Nat) (k : String) (hok : e.core.Ok) :
+    (e.completeFailure id k).2 = .ok ∨
+    (∃ o, e.op? id = some o ∧ isDisconnect o.packet = true ∧ (e.completeFailure id k).2 = .err "UserInitiatedDisconnect") := by
+  unfold Engine.completeFailure
+  cases ho : e.op? id with
+  | none => exact .inl rfl
+  | some o =>
+    simp only []
+    have hf := releaseIds_fields { e with ops := mapErase e.ops id } o
+    obtain ⟨sc, hA, _⟩ := applyAckable_eq (({ e with ops := mapErase e.ops id } : Engine).releaseIds o) o
+      (by rw [hf.2.1, hf.2.2.1, hf.2.2.2]; exact hok.slow_ge (show e.core.ops.lookup id = some o from ho))
+    rw [hA]
+    simp only []
+    unfold Engine.applyDisconnectCompletion
+    by_cases hd : isDisconnect o.packet = true
+    · right
+      refine ⟨o, rfl, hd, ?_⟩
+      simp only [hd, ↓reduceIte, Res.isOk, Bool.not_false]
+    · left
+      simp only [hd, Bool.false_eq_true, ↓reduceIte, Res.isOk, Bool.not_true]
+      split <;> rfl
+
+theorem closeCurrent_ok (e : Engine) (hok : e.core.Ok) : e.closeCurrent.2 = .ok ∧ e.closeCurrent.1.current = none := by
+  unfold Engine.closeCurrent
+  cases hc : e.current with
+  | none => exact ⟨rfl, rfl⟩
+  | some id =>
+    simp only []
+    cases ho : e.op? id with
+    | none => exact ⟨rfl, rfl⟩
+    | some o =>
+      simp only []
+      have key : ∀ x : Engine × Res, x.2 = .ok →
+          (if x.2.isOk = true then (({ x.1 with current := none } : Engine), Res.ok) else (x.1, x.2)).2 = .ok ∧
+          (if x.2.isOk = true then (({ x.1 with current := none } : Engine), Res.ok) else (x.1, x.2)).1.current = none := by
+        intro x hx; rw [hx]; exact ⟨rfl, rfl⟩
+      apply key
+      have hfail : ∀ k, isDisconnect o.packet = false → (e.completeFailure id k).2 = .ok := by
+        intro k hnd
+        rcases completeFailure_result e id k hok with a | ⟨o', ho', hd, _⟩
+        · exact a
+        · rw [ho] at ho'; cases ho'; rw [hnd] at hd; cases hd
+      split
+      · rename_i hp; split
+        · rfl
+        · exact hfail _ (by rw [hp]; rfl)
+      · rename_i hp; split
+        · rfl
+        · exact hfail _ (by rw [hp]; rfl)
+      · rename_i p hp
+        split
+        · split <;> rfl
+        · split
+          · rfl
+          · split
+            · rfl
+            · exact hfail _ (by rw [hp]; rfl)
+      · rcases completeFailure_result e id "ConnectionClosed" hok with a | ⟨o', _, _, a⟩
+        · show ignoreUserDisconnect (e.completeFailure id "ConnectionClosed").2 = .ok
+          rw [a]; rfl
+        · show ignoreUserDisconnect (e.completeFailure id "ConnectionClosed").2 = .ok
+          rw [a]; rfl
+
+/-! ### what the close handler leaves behind -/
+
+/-- the containers a Disconnected engine must have empty, except the two pending tables -/
+structure Quiet (e : Engine) : Prop where
+  current : e.current = none
+  highQ : e.highQ = []
+  pendingWC : e.pendingWC = []
+  timeouts : e.timeouts = []
+
+theorem completeFailure_tables (e : Engine) (id : Nat) (k : String) :
+    (e.pendingPub = [] → (e.completeFailure id k).1.pendingPub = []) ∧ (e.pendingNonPub = [] → (e.completeFailure id k).1.pendingNonPub = []) := by
+  cases ho : e.op? id with
+  | none => simp only [Engine.completeFailure, ho]; exact ⟨fun h => h, fun h => h⟩
+  | some o =>
+    obtain ⟨s', hv, _⟩ := completeFailure_view e id k o ho
+    have h1 : (e.completeFailure id k).1.pendingPub = releaseFrom e.pendingPub o.packetId := congrArg View.pendingPub hv
+    have h2 : (e.completeFailure id k).1.pendingNonPub = releaseFrom e.pendingNonPub o.packetId := congrArg View.pendingNonPub hv
+    exact ⟨fun h => by rw [h1, h]; exact releaseFrom_nil _, fun h => by rw [h2, h]; exact releaseFrom_nil _⟩
+
+theorem completeFailure_quiet (e : Engine) (id : Nat) (k : String) (h : Quiet e) : Quiet (e.completeFailure id k).1 :=
+  ⟨(completeFailure_same e id k).current.trans h.current, (completeFailure_same e id k).highQ.trans h.highQ,
+   (completeFailure_ops e id k).2.1.trans h.pendingWC, (completeFailure_same e id k).timeouts.trans h.timeouts⟩
+
+theorem failAll_keeps (P : Engine → Prop) (hP : ∀ e id k, P e → P (e.completeFailure id k).1) (k : String) :
+    ∀ (ids : List Nat) (e : Engine), P e → P (e.failAll ids k).1 := by
+  intro ids e
+  unfold Engine.failAll
+  have : ∀ (l : List Nat) (acc : Engine × Res), P acc.1 → P (l.foldl (fun (acc : Engine × Res) id =>
+      match acc.1.completeFailure id k with | (e', r) => (e', acc.2.fold r)) acc).1 := by
+    intro l
+    induction l with
+    | nil => intro acc h; exact h
+    | cons x xs ih => intro acc h; exact ih _ (hP acc.1 x k h)
+  exact this ids (e, .ok)
+
+theorem failAllIgnoringDisconnect_keeps (P : Engine → Prop) (hP : ∀ e id k, P e → P (e.completeFailure id k).1) (k : String) :
+    ∀ (ids : List Nat) (e : Engine), P e → P (e.failAllIgnoringDisconnect ids k).1 := by
+  intro ids e
+  unfold Engine.failAllIgnoringDisconnect
+  have : ∀ (l : List Nat) (acc : Engine × Res), P acc.1 → P (l.foldl (fun (acc : Engine × Res) id =>
+      match acc.1.completeFailure id k with | (e', r) => (e', acc.2.fold (ignoreUserDisconnect r))) acc).1 := by
+    intro l
+    induction l with
+    | nil => intro acc h; exact h
+    | cons x xs ih => intro acc h; exact ih _ (hP acc.1 x k h)
+  exact this ids (e, .ok)
+
+theorem failExceeding_keeps (P : Engine → Prop) (hP : ∀ e id k, P e → P (e.completeFailure id k).1) (e : Engine) (h : P e) : P e.failExceeding.1 := by
+  unfold Engine.failExceeding
+  split
+  · exact h
+  · simp only []
+    exact failAll_keeps P hP _ _ _ (failAll_keeps P hP _ _ _ h)
+
+/-- after part 1: no current operation (given), nothing in the high-priority queue, nothing unflushed -/
+theorem closeFailStage_quiet (e3 : Engine) (hc : e3.current = none) (ht : e3.timeouts = []) : Quiet e3.closeFailStage.1 := by
+  let e4 : Engine := { e3 with highQ := [] }
+  let failures := e3.highQ.filter (fun id => match e4.op? id with | some o => o.pubrel.isNone | none => true)
+  let x5 := e4.failAllIgnoringDisconnect failures "ConnectionClosed"
+  let e6 : Engine := { x5.1 with pendingWC := [] }
+  let pr := e6.partitionByPolicy x5.1.pendingWC
+  let e7 : Engine := { e6 with userQ := e6.userQ ++ pr.1 }
+  let x8 := e7.failAllIgnoringDisconnect pr.2 "OfflineQueuePolicyFailed"
+  have s5 : SameClock x5.1 e4 := failAllIgnoringDisconnect_same _ failures e4
+  have q7 : Quiet e7 := ⟨s5.current.trans hc, s5.highQ, rfl, s5.timeouts.trans ht⟩
+  have q8 : Quiet x8.1 := failAllIgnoringDisconnect_keeps Quiet completeFailure_quiet _ pr.2 e7 q7
+  exact failExceeding_keeps Quiet completeFailure_quiet x8.1 q8
+
+theorem requeuePubStep_quiet (en : Engine) (id : Nat) (h : Quiet en) : Quiet (requeuePubStep en id) := by
+  unfold requeuePubStep Engine.setDupFlag
+  cases en.op? id <;> exact ⟨h.current, h.highQ, h.pendingWC, h.timeouts⟩
+
+theorem foldl_keeps {α} (P : Engine → Prop) (f : Engine → α → Engine) (hf : ∀ e a, P e → P (f e a)) :
+    ∀ (l : List α) (e : Engine), P e → P (l.foldl f e) := by
+  intro l
+  induction l with
+  | nil => intro e h; exact h
+  | cons x xs ih => intro e h; exact ih _ (hf e x h)
+
+/-- after part 2: still quiet, and both pending tables are empty -/
+theorem closeRequeueStage_quiet (e9 : Engine) (h : Quiet e9) :
+    Quiet e9.closeRequeueStage.1 ∧ e9.closeRequeueStage.1.pendingPub = [] ∧ e9.closeRequeueStage.1.pendingNonPub = [] := by
+  let e10' := (vals e9.pendingPub).foldl requeuePubStep e9
+  let e10 : Engine := { e10' with pendingPub := [] }
+  let e11' := (vals e10.pendingNonPub).foldl requeueSubStep e10
+  let e11 : Engine := { e11' with pendingNonPub := [] }
+  let e12 : Engine := { e11 with userQ := [] }
+  let pr := e12.partitionByPolicy e11.userQ
+  let x13 := e12.failAll pr.2 "OfflineQueuePolicyFailed"
+  have hres : e9.closeRequeueStage.1 = { x13.1 with userQ := x13.1.userQ ++ pr.1 } := by
+    unfold Engine.closeRequeueStage
+    simp only []
+    rw [requeuePub_comm, requeueSub_comm]
+    rfl
+  have q10' : Quiet e10' := foldl_keeps Quiet requeuePubStep requeuePubStep_quiet _ e9 h
+  have q10 : Quiet e10 := ⟨q10'.current, q10'.highQ, q10'.pendingWC, q10'.timeouts⟩
+  have p10 : e10.pendingPub = [] := rfl
+  have q11' : Quiet e11' ∧ e11'.pendingPub = [] :=
+    foldl_keeps (fun en => Quiet en ∧ en.pendingPub = []) requeueSubStep
+      (fun en id hh => ⟨⟨hh.1.current, hh.1.highQ, hh.1.pendingWC, hh.1.timeouts⟩, hh.2⟩) _ e10 ⟨q10, p10⟩
+  have q12 : Quiet e12 ∧ e12.pendingPub = [] ∧ e12.pendingNonPub = [] :=
+    ⟨⟨q11'.1.current, q11'.1.highQ, q11'.1.pendingWC, q11'.1.timeouts⟩, q11'.2, rfl⟩
+  have q13 := failAll_keeps (fun en => Quiet en ∧ en.pendingPub = [] ∧ en.pendingNonPub = [])
+    (fun en id k hh => ⟨completeFailure_quiet en id k hh.1, (completeFailure_tables en id k).1 hh.2.1, (completeFailure_tables en id k).2 hh.2.2⟩)
+    "OfflineQueuePolicyFailed" pr.2 e12 q12
+  rw [hres]
+  exact ⟨⟨q13.1.current, q13.1.highQ, q13.1.pendingWC, q13.1.timeouts⟩, q13.2.1, q13.2.2⟩
+
+theorem pending_all_tracked {S U : List Nat} (e : Engine) (h : Big S U e.view) :
+    ((e.pendingNonPub.map (·.2)) ++ (e.pendingPub.map (·.2))).all (fun id => (e.ops.lookup id).isSome) = true := by
+  rw [List.all_eq_true]
+  intro id hid
+  rcases List.mem_append.mp hid with a | a
+  · obtain ⟨q, hq⟩ := lookup_of_mem_vals h.tns (show id ∈ vals e.view.pendingNonPub from a)
+    obtain ⟨o, ho, _⟩ := h.tn q id hq
+    have : e.ops.lookup id = some o := ho
+    rw [this]; rfl
+  · obtain ⟨q, hq⟩ := lookup_of_mem_vals h.tps (show id ∈ vals e.view.pendingPub from a)
+    obtain ⟨o, ho, _⟩ := h.tp q id hq
+    have : e.ops.lookup id = some o := ho
+    rw [this]; rfl
+
+theorem slowStartInit_some {S U : List Nat} (e : Engine) (h : Big S U e.view) : ∃ e2, e.slowStartInit = some e2 := by
+  unfold Engine.slowStartInit
+  split
+  · exact ⟨_, rfl⟩
+  · simp only []
+    rw [if_pos (pending_all_tracked e h)]
+    exact ⟨_, rfl⟩
+
+theorem updateInterrupted_some {S U : List Nat} (e : Engine) (h : Big S U e.view) : ∃ e2, e.updateInterrupted = some e2 := by
+  unfold Engine.updateInterrupted
+  split
+  · exact ⟨_, rfl⟩
+  · simp only []
+    have := pending_all_tracked e h
+    rw [if_pos (by simpa [Engine.op?] using this)]
+    exact ⟨_, rfl⟩
+
+theorem slowStartInit_frame (e e2 : Engine) (hi : e.slowStartInit = some e2) :
+    e2.current = e.current ∧ e2.highQ = e.highQ ∧ e2.timeouts = e.timeouts ∧ e2.state = e.state := by
+  unfold Engine.slowStartInit at hi
+  split at hi
+  · cases hi; exact ⟨rfl, rfl, rfl, rfl⟩
+  · simp only [] at hi
+    split at hi
+    · cases hi; exact ⟨rfl, rfl, rfl, rfl⟩
+    · cases hi
+
+theorem updateInterrupted_frame (e e2 : Engine) (hi : e.updateInterrupted = some e2) :
+    e2.current = e.current ∧ e2.highQ = e.highQ ∧ e2.timeouts = e.timeouts ∧ e2.state = e.state := by
+  unfold Engine.updateInterrupted at hi
+  split at hi
+  · cases hi; exact ⟨rfl, rfl, rfl, rfl⟩
+  · simp only [] at hi
+    split at hi
+    · cases hi; exact ⟨rfl, rfl, rfl, rfl⟩
+    · cases hi
+
+/-- **`handle_network_event_connection_closed` keeps the invariant and leaves a clean Disconnected engine.** -/
+theorem handleClosed_inv (e : Engine) (hinv : Inv e) : Inv e.handleClosed.1 := by
+  obtain ⟨hok, h, hD⟩ := hinv
+  unfold Engine.handleClosed
+  split
+  · exact ⟨hok, h, hD⟩
+  · simp only []
+    -- marked Disconnected, timers and timeout records dropped
+    let e0 : Engine := { e with state := .disconnected, connackDeadline := none, nextPing := none, pingDeadline := none, timeouts := [] }
+    have hok0 : e0.core.Ok := ((Pres.of_core_conn (e := e) (e' := e0) false rfl (by simp)) hok).1
+    have h0 : Big [] [] e0.view := by
+      show Big [] [] { e.view with state := .disconnected, noTimeouts := true }
+      exact { h with h1 := (fun hh => by cases hh), c1 := (fun hh => by cases hh), f := (fun hh => by cases hh), s := (fun hh => by cases hh) }
+    have hst0 : e0.state = .disconnected := rfl
+    have s1 := closeCurrent_stp e0 hst0
+    have h1 := s1.keeps hok0 h0
+    have hok1 := (s1.pres hok0).1
+    have hr1 := closeCurrent_ok e0 hok0
+    have hst1 : e0.closeCurrent.1.state = .disconnected := by rw [closeCurrent_state e0 (by rw [hst0]; decide)]
+    have ht1 : e0.closeCurrent.1.timeouts = [] := by
+      have : SameClock e0.closeCurrent.1 e0 ∨ True := .inr trivial
+      -- the helper touches neither the timeout records ...
+      unfold Engine.closeCurrent
+      cases hc : e0.current with
+      | none => rfl
+      | some id =>
+        simp only []
+        cases ho : e0.op? id with
+        | none => rfl
+        | some o =>
+          simp only []
+          have key : ∀ x : Engine × Res, x.1.timeouts = [] →
+              (if x.2.isOk = true then (({ x.1 with current := none } : Engine), Res.ok) else (x.1, x.2)).1.timeouts = [] := by
+            intro x hx; split <;> exact hx
+          apply key
+          have hf : ∀ k, (e0.completeFailure id k).1.timeouts = [] := fun k => (completeFailure_same e0 id k).timeouts
+          split
+          · split
+            · rfl
+            · exact hf _
+          · split
+            · rfl
+            · exact hf _
+          · split
+            · split <;> rfl
+            · split
+              · rfl
+              · split
+                · rfl
+                · exact hf _
+          · exact hf _
+    generalize hx1 : e0.closeCurrent = x1 at h1 hok1 hr1 hst1 ht1
+    obtain ⟨e1, r1⟩ := x1
+    simp only [] at h1 hok1 hr1 hst1 ht1 ⊢
+    rw [hr1.1]
+    simp only [Res.isOk, Bool.not_true, Bool.false_eq_true, ↓reduceIte]
+    obtain ⟨e2, hss⟩ := slowStartInit_some e1 h1
+    rw [hss]
+    simp only []
+    have s2 := slowStartInit_stp (S := []) (U := []) e1 e2 hss (by rw [hst1]; decide)
+    have h2 := s2.keeps hok1 h1
+    have hok2 := (s2.pres hok1).1
+    have f2 := slowStartInit_frame e1 e2 hss
+    obtain ⟨e3, hui⟩ := updateInterrupted_some e2 h2
+    rw [hui]
+    simp only []
+    have s3 := updateInterrupted_stp (S := []) (U := []) e2 e3 hui
+    have h3 := s3.keeps hok2 h2
+    have hok3 := (s3.pres hok2).1
+    have f3 := updateInterrupted_frame e2 e3 hui
+    have hst3 : e3.state = .disconnected := by rw [f3.2.2.2, f2.2.2.2]; exact hst1
+    have hc3 : e3.current = none := by rw [f3.1, f2.1]; exact hr1.2
+    have ht3 : e3.timeouts = [] := by rw [f3.2.2.1, f2.2.2.1]; exact ht1
+    have s9 := closeFailStage_stp e3 hst3
+    have h9 := s9.keeps hok3 h3
+    have hok9 := (s9.pres hok3).1
+    have q9 := closeFailStage_quiet e3 hc3 ht3
+    have hst9 := GV.closeFailStage_state e3 hst3
+    generalize e3.closeFailStage = x9 at h9 hok9 q9 hst9 ⊢
+    obtain ⟨e9, rabc⟩ := x9
+    simp only [] at h9 hok9 q9 hst9 ⊢
+    have s14 := closeRequeueStage_stp e9 hst9 q9.highQ
+    have h14 := s14.keeps hok9 h9
+    have hok14 := (s14.pres hok9).1
+    have q14 := closeRequeueStage_quiet e9 q9
+    generalize e9.closeRequeueStage = x14 at h14 hok14 q14 ⊢
+    obtain ⟨e14, rd⟩ := x14
+    simp only [] at h14 hok14 q14 ⊢
+    refine ⟨hok14, h14, ?_⟩
+    intro _
+    exact ⟨q14.1.current, q14.1.highQ, q14.2.1, q14.2.2, q14.1.pendingWC, by
+      show e14.timeouts.isEmpty = true
+      rw [q14.1.timeouts]; rfl⟩
 
 end GV
